@@ -3,7 +3,7 @@
    body once per true evaluation of its guard, a counting loop enters iteration k iff k < the limit
    read before that test), for all schedules.  Proof file. *)
 From PFDL Require Import RefSem RunCase Monitors MonitorsSeq MonitorsFork RefBase RefClosure RefShape
-     RefC01 RefC07 RefC04 RefProgress RefC02 RefC03 Examples MonitorsDecide.
+     RefC01 RefC07 RefC04 RefProgress RefC02 RefC03 RefMonitors Examples MonitorsDecide MonitorsParams.
 From Coq Require Import Lia Permutation.
 
 (* ===================================================================== *)
@@ -77,26 +77,36 @@ Proof.
     replace (i0 + S (List.length l)) with (S i0 + List.length l) by lia. eapply (IH _ i); [exact H2|exact Hn|lia].
 Qed.
 
+(* equations that [subst] leaves alone *)
+Definition peq (a b : list param) : Prop := a = b.
+
 Section Guarded.
   Variable GK : name -> list nat -> gk.
+  Variable INS : name -> list nat -> list param.
+  Variable LV : name -> list nat -> option name.
 
   Fixpoint guarded (tn : name) (q : list nat) (s : xstmt) {struct s} : Prop :=
     match s with
-    | XService _ at_ _ => at_ = mksite tn q /\ GK tn q = GLeaf
-    | XCall t at_ _ body =>
+    | XService _ at_ ins => at_ = mksite tn q /\ GK tn q = GLeaf /\ peq (INS tn q) ins /\ LV tn q = None
+    | XCall t at_ ins body =>
       at_ = mksite tn q /\ GK tn q = GLeaf /\ GK t [] = GNone /\
-      all_end (fun i s1 => guarded t ([] ++ [i]) s1) (fun i => GK t ([] ++ [i]) = GNone) 0 body
+      all_end (fun i s1 => guarded t ([] ++ [i]) s1) (fun i => GK t ([] ++ [i]) = GNone) 0 body /\
+      peq (INS tn q) ins /\ LV tn q = None
     | XParallel bs =>
-      GK tn q = GPar (List.length bs) /\ all_from (fun j b => is_call b = true /\ guarded tn (q ++ [j]) b) 0 bs
+      GK tn q = GPar (List.length bs) /\ all_from (fun j b => is_call b = true /\ guarded tn (q ++ [j]) b) 0 bs /\
+      LV tn q = None
     | XCond e p f =>
       GK tn q = GCond e /\ GK tn (q ++ [0]) = GNone /\ GK tn (q ++ [1]) = GNone /\
       all_end (fun i s1 => guarded tn ((q ++ [0]) ++ [i]) s1) (fun i => GK tn ((q ++ [0]) ++ [i]) = GNone) 0 p /\
-      all_end (fun i s1 => guarded tn ((q ++ [1]) ++ [i]) s1) (fun i => GK tn ((q ++ [1]) ++ [i]) = GNone) 0 f
+      all_end (fun i s1 => guarded tn ((q ++ [1]) ++ [i]) s1) (fun i => GK tn ((q ++ [1]) ++ [i]) = GNone) 0 f /\
+      LV tn q = None /\ LV tn (q ++ [0]) = None /\ LV tn (q ++ [1]) = None
     | XWhile e b =>
-      GK tn q = GWhile e /\ all_end (fun i s1 => guarded tn (q ++ [i]) s1) (fun i => GK tn (q ++ [i]) = GNone) 0 b
-    | XCount _ lim b =>
-      GK tn q = GCount lim /\ all_end (fun i s1 => guarded tn (q ++ [i]) s1) (fun i => GK tn (q ++ [i]) = GNone) 0 b
-    | XParLoop _ lim c => GK tn q = GPLoop lim /\ is_call c = true /\ guarded tn (q ++ [0]) c
+      GK tn q = GWhile e /\ all_end (fun i s1 => guarded tn (q ++ [i]) s1) (fun i => GK tn (q ++ [i]) = GNone) 0 b /\
+      LV tn q = None
+    | XCount v lim b =>
+      GK tn q = GCount lim /\ all_end (fun i s1 => guarded tn (q ++ [i]) s1) (fun i => GK tn (q ++ [i]) = GNone) 0 b /\
+      LV tn q = Some v
+    | XParLoop v lim c => GK tn q = GPLoop lim /\ is_call c = true /\ guarded tn (q ++ [0]) c /\ LV tn q = Some v
     end.
 
   Definition gblock (tn : name) (pre : list nat) (ss : list xstmt) : Prop :=
@@ -118,10 +128,11 @@ End Guarded.
 Section Ideal.
   Variable GK : name -> list nat -> gk.
   Variable orc : oracle.
+  Variable chk : drec -> notif -> bool.
 
   (* one entry is accepted, with some amount of fuel, without giving up *)
   Definition istep (M : dst) (e : entry) (M' : dst) : Prop :=
-    ds_lost M = false /\ ds_lost M' = false /\ exists f, dec_entry GK orc f M e = Some M'.
+    ds_lost M = false /\ ds_lost M' = false /\ exists f, dec_entry GK orc chk f M e = Some M'.
 
   Inductive ilog : dst -> list entry -> dst -> Prop :=
   | il_nil : forall M, ds_lost M = false -> ilog M [] M
@@ -239,6 +250,7 @@ Qed.
 Section Events.
   Variable GK : name -> list nat -> gk.
   Variable orc : oracle.
+  Variable chk : drec -> notif -> bool.
 
   Definition start_upd (M : dst) (tk : bool) (n : notif) (c : nat) (r' : drec) : dst :=
     {| ds_recs := (if tk then setr (n_id n) (new_rec (n_name n)) else fun l => l) (setr c r' (ds_recs M));
@@ -248,29 +260,31 @@ Section Events.
       ds_lost M = false -> n_kind n = (if tk then TS else SS) -> n_ctx n = Some c -> n_site n = mksite tn p ->
       grec c M = Some r -> d_task r = tn -> d_more r = 0 ->
       (exists f, expect GK orc f r (ds_q M) = Some (Some (Some p, cn, ds_q M, more))) ->
-      forall rr, istep GK orc M (ENotif 0 n rr)
+      chk {| d_task := tn; d_last := Some p; d_cnt := cn; d_more := more; d_first := None |} n = true ->
+      forall rr, istep GK orc chk M (ENotif 0 n rr)
                        (start_upd M tk n c {| d_task := tn; d_last := Some p; d_cnt := cn; d_more := more; d_first := None |}).
   Proof.
-    intros M tk n c r tn p cn more Hl Hk Hc Hs Hr Ht Hm (f & Hf) rr. subst tn. split; [exact Hl|]. split; [reflexivity|].
+    intros M tk n c r tn p cn more Hl Hk Hc Hs Hr Ht Hm (f & Hf) Hchk rr. subst tn. split; [exact Hl|]. split; [reflexivity|].
     exists f. unfold dec_entry. rewrite Hl. unfold dec_notif. unfold grec in Hr.
     assert (E : on_start GK orc f r p (ds_q M) =
                 Next {| d_task := d_task r; d_last := Some p; d_cnt := cn; d_more := more; d_first := None |}).
     { unfold on_start. rewrite Hm, Hf. cbn [option_eqb]. rewrite list_eqb_refl_nat, Nat.eqb_refl. reflexivity. }
     destruct tk; rewrite Hk, Hc, Hr, Hs; cbn [mksite st_task st_path]; rewrite Nat.eqb_refl; cbn [negb];
-      rewrite E; reflexivity.
+      rewrite E, Hchk; reflexivity.
   Qed.
 
   Lemma istart_sib : forall M n c r tn t p m,
       ds_lost M = false -> n_kind n = TS -> n_ctx n = Some c -> n_site n = mksite tn p ->
       grec c M = Some r -> d_task r = tn -> d_more r = S m -> d_last r = Some t -> d_first r = None ->
       sibling (GK tn) t = Some p ->
-      forall rr, istep GK orc M (ENotif 0 n rr)
-                       (start_upd M true n c {| d_task := tn; d_last := Some p; d_cnt := d_cnt r; d_more := m; d_first := None |}).
+      chk {| d_task := tn; d_last := Some p; d_cnt := sib_cnt (GK tn) t (d_cnt r); d_more := m; d_first := None |} n = true ->
+      forall rr, istep GK orc chk M (ENotif 0 n rr)
+                       (start_upd M true n c {| d_task := tn; d_last := Some p; d_cnt := sib_cnt (GK tn) t (d_cnt r); d_more := m; d_first := None |}).
   Proof.
-    intros M n c r tn t p m Hl Hk Hc Hs Hr Ht Hm Hla Hfi Hsib rr. subst tn. split; [exact Hl|]. split; [reflexivity|].
+    intros M n c r tn t p m Hl Hk Hc Hs Hr Ht Hm Hla Hfi Hsib Hchk rr. subst tn. split; [exact Hl|]. split; [reflexivity|].
     exists 0. unfold dec_entry. rewrite Hl. unfold dec_notif. unfold grec in Hr.
     rewrite Hk, Hc, Hr, Hs. cbn [mksite st_task st_path]. rewrite Nat.eqb_refl. cbn [negb].
-    unfold on_start. rewrite Hm, Hla, Hsib, Hfi. cbn [option_eqb is_none]. rewrite list_eqb_refl_nat. reflexivity.
+    unfold on_start. rewrite Hm, Hla, Hsib, Hfi. cbn [option_eqb is_none]. rewrite list_eqb_refl_nat. cbn [andb]. rewrite Hchk. reflexivity.
   Qed.
 
   Definition fin_upd (M : dst) (n : notif) : dst :=
@@ -280,21 +294,21 @@ Section Events.
   Lemma iend : forall M n r cn more,
       ds_lost M = false -> n_kind n = TF -> grec (n_id n) M = Some r -> d_more r = 0 ->
       (exists f, expect GK orc f r (ds_q M) = Some (Some (None, cn, ds_q M, more))) ->
-      forall rr, istep GK orc M (ENotif 0 n rr) (fin_upd M n).
+      forall rr, istep GK orc chk M (ENotif 0 n rr) (fin_upd M n).
   Proof.
     intros M n r cn more Hl Hk Hr Hm (f & Hf) rr. split; [exact Hl|]. split; [reflexivity|].
     exists f. unfold dec_entry. rewrite Hl. unfold dec_notif. unfold grec in Hr. rewrite Hk, Hr.
     unfold on_end. rewrite Hm, Hf. cbn [option_eqb]. rewrite Nat.eqb_refl. reflexivity.
   Qed.
 
-  Lemma isf : forall M n, ds_lost M = false -> n_kind n = SF -> forall rr, istep GK orc M (ENotif 0 n rr) (fin_upd M n).
+  Lemma isf : forall M n, ds_lost M = false -> n_kind n = SF -> forall rr, istep GK orc chk M (ENotif 0 n rr) (fin_upd M n).
   Proof.
     intros M n Hl Hk rr. split; [exact Hl|]. split; [reflexivity|]. exists 0. unfold dec_entry. rewrite Hl.
     unfold dec_notif. rewrite Hk. reflexivity.
   Qed.
 
   Lemma iroot : forall M n, ds_lost M = false -> n_kind n = TS -> n_ctx n = None ->
-      forall rr, istep GK orc M (ENotif 0 n rr)
+      forall rr, istep GK orc chk M (ENotif 0 n rr)
                        {| ds_recs := setr (n_id n) (new_rec (n_name n)) (ds_recs M); ds_q := ds_q M; ds_lost := false |}.
   Proof.
     intros M n Hl Hk Hc rr. split; [exact Hl|]. split; [reflexivity|]. exists 0. unfold dec_entry. rewrite Hl.
@@ -692,6 +706,7 @@ End Tree.
 Section Quiet.
   Variable GK : name -> list nat -> gk.
   Variable orc : oracle.
+  Variable chk : drec -> notif -> bool.
 
   Definition same_pos (r r1 : drec) : Prop :=
     d_task r1 = d_task r /\ d_last r1 = d_last r /\ d_cnt r1 = d_cnt r /\ d_more r1 = d_more r.
@@ -731,23 +746,23 @@ Section Quiet.
   Qed.
 
   Lemma DQ_queries : forall vs ctx g u g' M0 M,
-      log_queries vs ctx g = Ok (u, g') -> ilog GK orc M0 (rev (g_log g)) M ->
-      exists M1, ilog GK orc M0 (rev (g_log g')) M1 /\ QM ctx M M1 /\ ds_q M1 = ds_q M + List.length vs /\ g_q g' = g_q g.
+      log_queries vs ctx g = Ok (u, g') -> ilog GK orc chk M0 (rev (g_log g)) M ->
+      exists M1, ilog GK orc chk M0 (rev (g_log g')) M1 /\ QM ctx M M1 /\ ds_q M1 = ds_q M + List.length vs /\ g_q g' = g_q g.
   Proof.
     induction vs as [|v vs IH]; intros ctx g u g' M0 M H HQ; cbn [log_queries] in H.
-    - mstep. exists M. split; [exact HQ|]. split; [apply QM_refl; apply (ilog_lost _ _ _ _ _ HQ)|]. split; [cbn; lia|reflexivity].
+    - mstep. exists M. split; [exact HQ|]. split; [apply QM_refl; apply (ilog_lost _ _ _ _ _ _ HQ)|]. split; [cbn; lia|reflexivity].
     - mstep as u1 g1 E1. unfold log_entry in E1. apply log_entries_eff in E1.
       destruct E1 as (_ & _ & _ & _ & _ & _ & H7 & _ & H9).
-      assert (HQ1 : ilog GK orc M0 (rev (g_log g1)) (qnote ctx M)).
+      assert (HQ1 : ilog GK orc chk M0 (rev (g_log g1)) (qnote ctx M)).
       { rewrite H9, rev_app_distr, rev_involutive. eapply ilog_app; [exact HQ|]. apply ilog_one. apply istep_query.
-        apply (ilog_lost _ _ _ _ _ HQ). }
+        apply (ilog_lost _ _ _ _ _ _ HQ). }
       destruct (IH _ _ _ _ M0 _ H HQ1) as (M1 & A1 & A2 & A3 & A4).
       exists M1. split; [exact A1|]. split; [eapply QM_trans; [apply QM_step|exact A2]|]. split; [rewrite A3; cbn; lia|congruence].
   Qed.
 
   Lemma DQ_decide : forall e ctx g b g' M0 M,
-      decide_m orc e ctx g = Ok (b, g') -> DQ GK orc M0 g M ->
-      exists M1, DQ GK orc M0 g' M1 /\ QM ctx M M1 /\ dec orc e (ds_q M) = Some (b, ds_q M1).
+      decide_m orc e ctx g = Ok (b, g') -> DQ GK orc chk M0 g M ->
+      exists M1, DQ GK orc chk M0 g' M1 /\ QM ctx M M1 /\ dec orc e (ds_q M) = Some (b, ds_q M1).
   Proof.
     intros e ctx g b g' M0 M H (H1 & H2). unfold decide_m in H. unfold dec. rewrite H2.
     destruct (decide expected_ops orc e (g_q g)) as [[b0 k']| | |] eqn:D; try discriminate.
@@ -758,11 +773,11 @@ Section Quiet.
   Qed.
 
   Lemma DQ_limit : forall l ctx g n g' M0 M,
-      read_limit orc l ctx g = Ok (n, g') -> DQ GK orc M0 g M ->
-      exists M1, DQ GK orc M0 g' M1 /\ QM ctx M M1 /\ rlimit orc l (ds_q M) = Some (n, ds_q M1).
+      read_limit orc l ctx g = Ok (n, g') -> DQ GK orc chk M0 g M ->
+      exists M1, DQ GK orc chk M0 g' M1 /\ QM ctx M M1 /\ rlimit orc l (ds_q M) = Some (n, ds_q M1).
   Proof.
     intros l ctx g n g' M0 M H (H1 & H2). destruct l as [k|v p]; cbn [read_limit rlimit] in *.
-    - mstep. exists M. split; [split; assumption|]. split; [apply QM_refl; apply (ilog_lost _ _ _ _ _ H1)|reflexivity].
+    - mstep. exists M. split; [split; assumption|]. split; [apply QM_refl; apply (ilog_lost _ _ _ _ _ _ H1)|reflexivity].
     - rewrite H2. destruct (orc (g_q g) v) as [x|] eqn:Eo; [|discriminate].
       destruct (resolve x p) as [[q| | |]| | |] eqn:Er; try discriminate.
       destruct (Pos.eqb (Qden q) 1) eqn:Ed; [|discriminate].
@@ -773,7 +788,7 @@ Section Quiet.
       split; [|cbn; rewrite H2; reflexivity].
       change (g_log (g1 <| g_q := S (g_q g) |>)) with (g_log g1).
       rewrite H9, rev_app_distr, rev_involutive. eapply ilog_app; [exact H1|]. apply ilog_one. apply istep_query.
-      apply (ilog_lost _ _ _ _ _ H1).
+      apply (ilog_lost _ _ _ _ _ _ H1).
   Qed.
 
   (* generic continuation invariant *)
@@ -801,14 +816,72 @@ Section Quiet.
 End Quiet.
 
 (* ===================================================================== *)
+(* 7b. index environments and instance numbers                             *)
+(* ===================================================================== *)
+Lemma ie_go_app : forall LVt cn a b q acc, ie_go LVt cn q (a ++ b) acc = ie_go LVt cn (q ++ a) b (ie_go LVt cn q a acc).
+Proof.
+  intros LVt cn. induction a as [|x a IH]; intros b q acc; cbn [app ie_go].
+  - rewrite app_nil_r. reflexivity.
+  - rewrite IH. rewrite <- app_assoc. reflexivity.
+Qed.
+
+Lemma ie_of_snoc : forall LVt cn pre i,
+    ie_of LVt cn (pre ++ [i]) =
+    match LVt (pre ++ [i]) with Some v => (v, getc (pre ++ [i]) cn) :: ie_of LVt cn pre | None => ie_of LVt cn pre end.
+Proof. intros. unfold ie_of. rewrite ie_go_app. cbn [ie_go app]. reflexivity. Qed.
+
+Lemma ie_keep : forall LVt pre cn cn', KeepB pre cn cn' -> ie_of LVt cn' pre = ie_of LVt cn pre.
+Proof.
+  intros LVt pre. induction pre as [|x p0 IH] using rev_ind; intros cn cn' HK; [reflexivity|].
+  rewrite !ie_of_snoc. rewrite (HK (p0 ++ [x])).
+  - rewrite (IH cn cn'); [reflexivity|]. eapply KeepB_inner; [|exact HK]. discriminate.
+  - intros (j & rest & H). apply (f_equal (@List.length nat)) in H. rewrite !app_length in H. cbn in H. lia.
+Qed.
+
+Fixpoint cnt_par (P : list nat) (j : nat) (cn : cnts) : cnts :=
+  match j with O => setc P 0 cn | S j' => setc P (S j') (cnt_par P j' cn) end.
+Definition cnt_at (lim : option limit) (P : list nat) (j : nat) (cn : cnts) : cnts :=
+  match lim with None => cn | Some _ => cnt_par P j cn end.
+
+Lemma getc_cnt_par : forall P j cn, getc P (cnt_par P j cn) = j.
+Proof. intros P [|j] cn; cbn [cnt_par]; apply getc_setc_same. Qed.
+
+Lemma KeepB_cnt_par : forall pre i j cn, KeepB pre cn (cnt_par (pre ++ [i]) j cn).
+Proof.
+  intros pre i. induction j as [|j IH]; intro cn; cbn [cnt_par]; [apply KeepB_setc|].
+  eapply KeepB_trans; [apply IH|apply KeepB_setc].
+Qed.
+
+Lemma KeepB_cnt_at : forall lim pre i j cn, KeepB pre cn (cnt_at lim (pre ++ [i]) j cn).
+Proof. intros [lm|] pre i j cn; cbn [cnt_at]; [apply KeepB_cnt_par|apply KeepB_refl]. Qed.
+
+(* an equation between index environments that [subst] leaves alone *)
+Definition ieq (a b : ienv) : Prop := a = b.
+
+Lemma params_eqb_refl : forall l : list param, list_eqb param_eqb l l = true.
+Proof. induction l as [|x l IH]; [reflexivity|]. cbn. rewrite param_eqb_refl, IH. reflexivity. Qed.
+
+Lemma chk_ok : forall INS LV tn p cn more k nm id ctx ie ins,
+    INS tn p = ins -> ie_of (LV tn) cn p = ie ->
+    chk_params INS LV {| d_task := tn; d_last := Some p; d_cnt := cn; d_more := more; d_first := None |}
+               (mk k nm (mksite tn p) id ctx (subst_params ie ins)) = true.
+Proof.
+  intros INS LV tn p cn more k nm id ctx ie ins H1 H2. unfold chk_params. cbn [d_last d_task d_cnt mk n_params].
+  rewrite H1, H2. apply params_eqb_refl.
+Qed.
+
+(* ===================================================================== *)
 (* 8. the start family                                                     *)
 (* ===================================================================== *)
 Section StartD.
   Variable GK : name -> list nat -> gk.
+  Variable INS : name -> list nat -> list param.
+  Variable LV : name -> list nat -> option name.
+  Notation CH := (chk_params INS LV).
   Variable orc : oracle.
   Variable imm : nat -> bool.
 
-  Notation DQ := (DQ GK orc).
+  Notation DQ := (DQ GK orc CH).
   Notation Wg := (Wg GK orc).
 
   Definition nofan (k : gk) : Prop := match k with GPar _ | GPLoop _ => False | _ => True end.
@@ -836,15 +909,15 @@ Section StartD.
   Definition SSd (f : nat) : Prop :=
     forall ctx ie s g st g' M0 M tn pre i cn,
       start_stmt orc imm f ctx ie s g = Ok (st, g') ->
-      lst_all (g_ls g) -> DQ M0 g M -> guarded GK tn (pre ++ [i]) s -> ctx < g_tid g -> nofan (GK tn pre) ->
-      Wg M ctx tn (fun f => walk (GK tn) orc f pre i cn (ds_q M)) ->
+      lst_all (g_ls g) -> DQ M0 g M -> guarded GK INS LV tn (pre ++ [i]) s -> ctx < g_tid g -> nofan (GK tn pre) ->
+      Wg M ctx tn (fun f => walk (GK tn) orc f pre i cn (ds_q M)) -> ieq (ie_of (LV tn) cn pre) ie ->
       exists M', DQ M0 g' M' /\ FrameLt g ctx M M' /\ post_stmt M' ctx tn pre i s st cn.
 
   Definition RBd (f : nat) : Prop :=
     forall ctx ie ss i g r g' M0 M tn pre cn,
       run_block orc imm f ctx ie ss i g = Ok (r, g') ->
-      lst_all (g_ls g) -> DQ M0 g M -> gblock GK tn pre ss -> i <= List.length ss -> ctx < g_tid g -> nofan (GK tn pre) ->
-      Wg M ctx tn (fun f => walk (GK tn) orc f pre i cn (ds_q M)) ->
+      lst_all (g_ls g) -> DQ M0 g M -> gblock GK INS LV tn pre ss -> i <= List.length ss -> ctx < g_tid g -> nofan (GK tn pre) ->
+      Wg M ctx tn (fun f => walk (GK tn) orc f pre i cn (ds_q M)) -> ieq (ie_of (LV tn) cn pre) ie ->
       exists M', DQ M0 g' M' /\ FrameLt g ctx M M' /\
                  match r with
                  | None => exists cn', Wg M' ctx tn (fun f => leave (GK tn) orc f pre cn' (ds_q M')) /\ KeepB pre cn cn'
@@ -873,16 +946,16 @@ Section StartD.
   Definition LTd (f : nat) : Prop :=
     forall ctx ie s k g st g' M0 M tn pre i cn,
       loop_test orc imm f ctx ie s k g = Ok (st, g') ->
-      lst_all (g_ls g) -> DQ M0 g M -> guarded GK tn (pre ++ [i]) s -> ctx < g_tid g -> nofan (GK tn pre) ->
-      Wg M ctx tn (fun f => ltest (GK tn) f pre i k cn (ds_q M)) ->
+      lst_all (g_ls g) -> DQ M0 g M -> guarded GK INS LV tn (pre ++ [i]) s -> ctx < g_tid g -> nofan (GK tn pre) ->
+      Wg M ctx tn (fun f => ltest (GK tn) f pre i k cn (ds_q M)) -> ieq (ie_of (LV tn) cn pre) ie ->
       exists M', DQ M0 g' M' /\ FrameLt g ctx M M' /\ post_stmt M' ctx tn pre i s st cn.
 
   (* the record of the instance before element j of a fork at position P (n elements) *)
   Definition Bst (M : dst) (ctx : nat) (tn : name) (lim : option limit) (P : list nat) (j n : nat) (cn : cnts) : Prop :=
     match j with
     | O => exists r, grec ctx M = Some r /\ d_task r = tn /\ d_more r = 0 /\
-                     exists f, expect GK orc f r (ds_q M) = Some (Some (Some (P ++ [0]), cn, ds_q M, n - 1))
-    | S j' => grec ctx M = Some (mkrec tn (P ++ [eidx lim j']) cn (n - j))
+                     exists f, expect GK orc f r (ds_q M) = Some (Some (Some (P ++ [0]), cnt_at lim P 0 cn, ds_q M, n - 1))
+    | S j' => grec ctx M = Some (mkrec tn (P ++ [eidx lim j']) (cnt_at lim P j' cn) (n - j))
     end.
 
   Definition fankind (lim : option limit) (n : nat) (k : gk) : Prop :=
@@ -891,22 +964,29 @@ Section StartD.
   Fixpoint glist (lim : option limit) (tn : name) (P : list nat) (j : nat) (l : list (ienv * xstmt)) : Prop :=
     match l with
     | [] => True
-    | (_, b) :: r => is_call b = true /\ guarded GK tn (P ++ [eidx lim j]) b /\ glist lim tn P (S j) r
+    | (_, b) :: r => is_call b = true /\ guarded GK INS LV tn (P ++ [eidx lim j]) b /\ glist lim tn P (S j) r
     end.
 
   Definition BCd (f : nat) : Prop :=
     forall ctx ie t at_ ins body g st g' M0 M tn lim P j n cn,
       start_stmt orc imm f ctx ie (XCall t at_ ins body) g = Ok (st, g') ->
-      lst_all (g_ls g) -> DQ M0 g M -> guarded GK tn (P ++ [eidx lim j]) (XCall t at_ ins body) -> ctx < g_tid g ->
+      lst_all (g_ls g) -> DQ M0 g M -> guarded GK INS LV tn (P ++ [eidx lim j]) (XCall t at_ ins body) -> ctx < g_tid g ->
       fankind lim n (GK tn P) -> j < n -> Bst M ctx tn lim P j n cn ->
+      ieq (ie_of (LV tn) (cnt_at lim P j cn) (P ++ [eidx lim j])) ie ->
       exists M', DQ M0 g' M' /\ FrameLt g ctx M M' /\ Bst M' ctx tn lim P (S j) n cn /\
                  nest_ok M' (XCall t at_ ins body) st.
+
+  Fixpoint gies (lim : option limit) (tn : name) (P : list nat) (j : nat) (cn : cnts) (l : list (ienv * xstmt)) : Prop :=
+    match l with
+    | [] => True
+    | (ie, _) :: r => ieq (ie_of (LV tn) (cnt_at lim P j cn) (P ++ [eidx lim j])) ie /\ gies lim tn P (S j) cn r
+    end.
 
   Definition SLd (f : nat) : Prop :=
     forall ctx l g sts g' M0 M tn lim P j n cn,
       start_list orc imm f ctx l g = Ok (sts, g') ->
       lst_all (g_ls g) -> DQ M0 g M -> glist lim tn P j l -> ctx < g_tid g ->
-      fankind lim n (GK tn P) -> j + List.length l = n -> Bst M ctx tn lim P j n cn ->
+      fankind lim n (GK tn P) -> j + List.length l = n -> Bst M ctx tn lim P j n cn -> gies lim tn P j cn l ->
       exists M', DQ M0 g' M' /\ FrameLt g ctx M M' /\ Bst M' ctx tn lim P n n cn /\ nest_list M' (map snd l) sts.
 
   Lemma Wg_new : forall M id t, grec id M = Some (new_rec t) ->
@@ -925,7 +1005,7 @@ Section StartD.
          | Some (i, sti) => ret (RCall idn i sti)
          end) g2 = Ok (st, g') ->
         lst_all (g_ls g2) -> DQ M0 g2 M1 -> g_tid g2 = S idn -> ctx < idn ->
-        gblock GK t [] body -> GK t [] = GNone -> grec idn M1 = Some (new_rec t) -> grec ctx M1 = Some r1 -> d_first r1 = None ->
+        gblock GK INS LV t [] body -> GK t [] = GNone -> grec idn M1 = Some (new_rec t) -> grec ctx M1 = Some r1 -> d_first r1 = None ->
         exists M', DQ M0 g' M' /\ (forall k, k < idn -> k <> ctx -> grec k M' = grec k M1) /\ grec ctx M' = Some r1 /\
                    nest_ok M' (XCall t (mksite tn q) ins body) st.
   Proof.
@@ -935,6 +1015,7 @@ Section StartD.
     destruct (RB idn [] body 0 g2 r g3 M0 M1 t [] [] E3 Hl2 Q1 Hbody ltac:(lia) ltac:(lia)) as (M3 & Q3 & FR3 & P3).
     { rewrite HG0. exact I. }
     { apply Wg_new. exact Hid. }
+    { exact eq_refl. }
     assert (Hctx3 : grec ctx M3 = Some r1) by (rewrite (FR3 ctx) by lia; exact Hctx).
     destruct r as [[i0 sti]|].
     - mstep. destruct P3 as (s0 & Hn0 & SP & NE & _). exists M3. split; [exact Q3|]. split.
@@ -946,7 +1027,7 @@ Section StartD.
       set (nTF := mk TF t (mksite tn q) idn (Some ctx) (subst_params ie ins)) in *.
       exists (fin_upd M3 nTF). split; [|split; [|split]].
       + eapply DQ_emit; [exact E4|rewrite F1'; exact Hl2|exact Q3| |reflexivity].
-        eapply iend; [apply (DQ_lost _ _ _ _ _ Q3)|reflexivity|exact R1|exact R3|]. exists f'. exact Hf'.
+        eapply iend; [apply (DQ_lost _ _ _ _ _ _ Q3)|reflexivity|exact R1|exact R3|]. exists f'. exact Hf'.
       + intros k Hk Hne. unfold grec, fin_upd. cbn [nTF mk n_ctx ds_recs]. rewrite assoc_touch_other by exact Hne. apply FR3; lia.
       + unfold grec, fin_upd. cbn [nTF mk n_ctx ds_recs]. rewrite (assoc_touch_same _ _ _ Hctx3).
         destruct r1; cbn in Hfirst; subst; reflexivity.
@@ -1002,7 +1083,7 @@ Section StartD.
   Proof. intros M n c k Hc Hk. unfold grec, fin_upd. cbn [ds_recs]. rewrite Hc. apply assoc_touch_other. exact Hk. Qed.
 
   Lemma glist_par : forall tn P (ie : ienv) bs j,
-      all_from (fun j b => is_call b = true /\ guarded GK tn (P ++ [j]) b) j bs ->
+      all_from (fun j b => is_call b = true /\ guarded GK INS LV tn (P ++ [j]) b) j bs ->
       glist None tn P j (map (fun b => (ie, b)) bs).
   Proof.
     intros tn P ie bs. induction bs as [|b bs IH]; intros j H; [exact I|].
@@ -1010,10 +1091,43 @@ Section StartD.
   Qed.
 
   Lemma glist_insts : forall tn P lm ie v c n j,
-      is_call c = true -> guarded GK tn (P ++ [0]) c -> glist (Some lm) tn P j (insts ie v c n).
+      is_call c = true -> guarded GK INS LV tn (P ++ [0]) c -> glist (Some lm) tn P j (insts ie v c n).
   Proof.
     intros tn P lm ie v c n j H1 H2. unfold insts. generalize (seq 0 n). intro l. revert j.
     induction l as [|x l IH]; intro j; [exact I|]. cbn [map glist eidx]. split; [exact H1|]. split; [exact H2|]. apply IH.
+  Qed.
+
+  Lemma sib_cnt_at : forall tn lim P j n cn x,
+      fankind lim n (GK tn P) -> sib_cnt (GK tn) (P ++ [x]) (cnt_at lim P j cn) = cnt_at lim P (S j) cn.
+  Proof.
+    intros tn lim P j n cn x HK. unfold sib_cnt. rewrite unsnoc_app. destruct lim as [lm|]; cbn in HK; rewrite HK; cbn [cnt_at cnt_par].
+    - rewrite getc_cnt_par. reflexivity.
+    - reflexivity.
+  Qed.
+
+  Lemma call_lv : forall tn q c, is_call c = true -> guarded GK INS LV tn q c -> LV tn q = None.
+  Proof.
+    intros tn q c H1 H2. destruct c as [?|t at_ ins body|?|? ? ?|? ?|? ? ?|? ? ?]; try discriminate H1.
+    cbn [guarded] in H2. apply H2.
+  Qed.
+
+  Lemma gies_par : forall tn P ie bs j cn,
+      all_from (fun j b => is_call b = true /\ guarded GK INS LV tn (P ++ [j]) b) j bs ->
+      ie_of (LV tn) cn P = ie -> gies None tn P j cn (map (fun b => (ie, b)) bs).
+  Proof.
+    intros tn P ie bs. induction bs as [|b bs IH]; intros j cn H Hie; [exact I|].
+    destruct H as [[H1 H2] H3]. cbn [map gies eidx cnt_at]. split; [|apply IH; assumption].
+    rewrite ie_of_snoc, (call_lv _ _ _ H1 H2). exact Hie.
+  Qed.
+
+  Lemma gies_insts : forall tn pre i lm ie v c n cn,
+      is_call c = true -> guarded GK INS LV tn ((pre ++ [i]) ++ [0]) c -> LV tn (pre ++ [i]) = Some v ->
+      ie_of (LV tn) cn pre = ie -> gies (Some lm) tn (pre ++ [i]) 0 cn (insts ie v c n).
+  Proof.
+    intros tn pre i lm ie v c n cn H1 H2 HV Hie. unfold insts. generalize 0.
+    induction n as [|n IH]; intro j; [exact I|]. cbn [seq map gies eidx cnt_at]. split; [|apply IH].
+    rewrite ie_of_snoc, (call_lv _ _ _ H1 H2), ie_of_snoc, HV, getc_cnt_par.
+    rewrite (ie_keep _ _ _ _ (KeepB_cnt_par pre i j cn)), Hie. reflexivity.
   Qed.
 
   Theorem start_dec : forall f, SSd f /\ RBd f /\ SLd f /\ LTd f /\ BCd f.
@@ -1023,12 +1137,12 @@ Section StartD.
     destruct IH as (IHs & IHb & IHl & IHt & IHc).
     split; [|split; [|split; [|split]]].
     - (* start_stmt *)
-      intros ctx ie s g st g' M0 M tn pre i cn H Hl HQ Hg Hlt Hnf HW.
-      pose proof (DQ_lost _ _ _ _ _ HQ) as Hlost.
+      intros ctx ie s g st g' M0 M tn pre i cn H Hl HQ Hg Hlt Hnf HW Hie.
+      pose proof (DQ_lost _ _ _ _ _ _ HQ) as Hlost.
       cbn [start_stmt] in H.
       destruct s as [n at_ ins|t at_ ins body|bs|e p fl|e b|v lim b|v lim c].
       + (* service *)
-        cbn [guarded] in Hg. destruct Hg as (-> & HG).
+        cbn [guarded] in Hg. destruct Hg as (-> & HG & HI & HV).
         mstep as id g1 E1. unfold fresh_s in E1. inv E1.
         mstep as u2 g2 E2. unfold await, set_awaited in E2. inv E2.
         mstep as u3 g3 E3.
@@ -1038,7 +1152,8 @@ Section StartD.
         set (M1 := start_upd M false nSS ctx (mkrec tn (pre ++ [i]) cn 0)).
         assert (Q3 : DQ M0 g3 M1).
         { eapply DQ_emit; [exact E3|exact Hl|eapply DQ_same; [exact HQ|reflexivity|reflexivity]| |reflexivity].
-          eapply istart_walk; try eassumption; try reflexivity. exists f'. exact Hf'. }
+          eapply istart_walk; try eassumption; try reflexivity;
+            [exists f'; exact Hf'|apply chk_ok; [exact HI|rewrite ie_of_snoc, HV; exact Hie]]. }
         assert (C1 : grec ctx M1 = Some (mkrec tn (pre ++ [i]) cn 0)) by (apply start_upd_ctx; right; reflexivity).
         assert (FR1 : FrameLt g ctx M M1).
         { intros k _ Hne. apply start_upd_other; [exact Hne|discriminate]. }
@@ -1061,7 +1176,7 @@ Section StartD.
           -- exists (mkrec tn (pre ++ [i]) cn 0). split; [exact C1|]. repeat split. intros lp k0 [].
           -- exists (mkrec tn (pre ++ [i]) cn 0). split; [exact C1|apply KeepB_refl].
       + (* task call *)
-        cbn [guarded] in Hg. destruct Hg as (-> & HG & HG0 & Hbody).
+        cbn [guarded] in Hg. destruct Hg as (-> & HG & HG0 & Hbody & HI & HV).
         destruct HW as (r & R1 & R2 & R3 & R4).
         destruct (R4 1 (Some (pre ++ [i]), cn, ds_q M, 0)) as (f' & Hf'); [cbn [walk]; rewrite HG; reflexivity|].
         mstep as id g1 E1. mstep as u2 g2 E2.
@@ -1071,7 +1186,8 @@ Section StartD.
         assert (Q2 : DQ M0 g2 M1).
         { unfold fresh_t in E1. inv E1.
           eapply DQ_emit; [exact E2|exact Hl|eapply DQ_same; [exact HQ|reflexivity|reflexivity]| |reflexivity].
-          eapply istart_walk; try eassumption; try reflexivity. exists f'. exact Hf'. }
+          eapply istart_walk; try eassumption; try reflexivity;
+            [exists f'; exact Hf'|apply chk_ok; [exact HI|rewrite ie_of_snoc, HV; exact Hie]]. }
         assert (C1 : grec ctx M1 = Some (mkrec tn (pre ++ [i]) cn 0)) by (apply start_upd_ctx; left; cbn; lia).
         destruct (dcall_rest f IHb ctx ie t tn (pre ++ [i]) ins body g2 st g' M0 M1 (g_tid g) _ H
                              ltac:(rewrite B1; exact Hl) Q2 B2 Hlt Hbody HG0 (start_upd_id _ nTS _ _) C1 eq_refl)
@@ -1085,7 +1201,7 @@ Section StartD.
                 split; [destruct st; reflexivity|]. split; [reflexivity|]. intros lp k0 Hin. destruct st; destruct Hin.
              ++ exists (mkrec tn (pre ++ [i]) cn 0). split; [exact C'|apply KeepB_refl].
       + (* parallel *)
-        cbn [guarded] in Hg. destruct Hg as (HG & Hbs).
+        cbn [guarded] in Hg. destruct Hg as (HG & Hbs & HV).
         mstep as sts g1 E1.
         destruct bs as [|b0 bs'].
         * (* no branch *)
@@ -1102,6 +1218,7 @@ Section StartD.
             as (M' & Q' & FR' & B' & N').
           { unfold n. rewrite map_length. reflexivity. }
           { cbn [Bst]. exists r. repeat split; try assumption. exists f'. exact Hf'. }
+          { apply gies_par; [exact Hbs|]. rewrite ie_of_snoc, HV. exact Hie. }
           assert (C' : grec ctx M' = Some (mkrec tn ((pre ++ [i]) ++ [n - 1]) cn 0)).
           { unfold Bst in B'. destruct n as [|n']; [lia|]. cbn [eidx] in B'. rewrite Nat.sub_diag in B'.
             replace (S n' - 1) with n' by lia. exact B'. }
@@ -1113,10 +1230,10 @@ Section StartD.
              ++ rewrite nest_par. rewrite map_snd_pair in N'. exact N'.
              ++ exists (mkrec tn ((pre ++ [i]) ++ [n - 1]) cn 0). split; [exact C'|apply KeepB_refl].
       + (* condition *)
-        cbn [guarded] in Hg. destruct Hg as (HG & HG0 & HG1 & Hp & Hf).
+        cbn [guarded] in Hg. destruct Hg as (HG & HG0 & HG1 & Hp & Hf & HV & HV0 & HV1).
         mstep as bb g1 E1.
         pose proof (Eff_Fr _ _ _ (decide_m_eff _ _ _ _ _ _ E1)) as (FL1 & FR1 & _).
-        destruct (DQ_decide GK orc _ _ _ _ _ M0 M E1 HQ) as (M1 & Q1 & QM1 & Hd).
+        destruct (DQ_decide GK orc CH _ _ _ _ _ M0 M E1 HQ) as (M1 & Q1 & QM1 & Hd).
         mstep as r g2 E2.
         set (pre' := (pre ++ [i]) ++ [if bb then 0 else 1]).
         destruct (IHb ctx ie _ 0 g1 r g2 M0 M1 tn pre' cn E2 ltac:(rewrite FL1; exact Hl) Q1) as (M2 & Q2 & FR2 & P2).
@@ -1126,6 +1243,7 @@ Section StartD.
         { unfold pre'. destruct bb; [rewrite HG0|rewrite HG1]; exact I. }
         { eapply Wg_move; [|exact QM1]. eapply Wg_imp; [exact HW|].
           intros f0 res Hf0. exists (S f0). cbn [walk]. rewrite HG, Hd. exact Hf0. }
+        { unfold pre'. destruct bb; rewrite ie_of_snoc; [rewrite HV0|rewrite HV1]; rewrite ie_of_snoc, HV; exact Hie. }
         exists M2. split; [destruct r as [[j st2]|]; mstep; exact Q2|]. split.
         { eapply FrameLt_trans; [apply QM_frame; exact QM1|exact FR2|exact FR1]. }
         assert (KI : forall a b0, KeepB pre' a b0 -> KeepB pre a b0).
@@ -1148,14 +1266,14 @@ Section StartD.
         eapply (IHt ctx ie (XCount v lim b) 0); try eassumption.
         eapply Wg_imp; [exact HW|]. intros f0 res Hf0. exists (S f0). cbn [walk]. rewrite HG. unfold ltest in Hf0. rewrite HG in Hf0. exact Hf0.
       + (* parallel loop *)
-        cbn [guarded] in Hg. destruct Hg as (HG & Hcc & Hcs).
+        cbn [guarded] in Hg. destruct Hg as (HG & Hcc & Hcs & HV).
         mstep as nz g1 E1.
         pose proof (Eff_Fr _ _ _ (read_limit_eff _ _ _ _ _ _ E1)) as (FL1 & FR1 & _).
-        destruct (DQ_limit GK orc _ _ _ _ _ M0 M E1 HQ) as (M1 & Q1 & QM1 & Hd).
+        destruct (DQ_limit GK orc CH _ _ _ _ _ M0 M E1 HQ) as (M1 & Q1 & QM1 & Hd).
         mstep as sts g2 E2.
         destruct (Z.ltb 0 nz) eqn:Ez.
         * apply Z.ltb_lt in Ez. set (n := Z.to_nat nz) in *. assert (Hn : 0 < n) by (unfold n; lia).
-          assert (HW1 : Wg M1 ctx tn (fun _ : nat => Some (Some ((pre ++ [i]) ++ [0]), cn, ds_q M1, n - 1))).
+          assert (HW1 : Wg M1 ctx tn (fun _ : nat => Some (Some ((pre ++ [i]) ++ [0]), setc (pre ++ [i]) 0 cn, ds_q M1, n - 1))).
           { eapply Wg_move; [|exact QM1]. eapply Wg_imp; [exact HW|].
             intros f0 res Hf0. exists 1. cbn [walk]. rewrite HG, Hd.
             assert (Z.ltb 0 nz = true) as -> by (apply Z.ltb_lt; exact Ez). exact Hf0. }
@@ -1164,21 +1282,24 @@ Section StartD.
                         (glist_insts _ _ _ _ _ _ _ _ Hcc Hcs) ltac:(lia) HG) as (M' & Q' & FR' & B' & N').
           { cbn. unfold insts. rewrite map_length, seq_length. reflexivity. }
           { cbn [Bst]. exists r. repeat split; try assumption. exists f'. exact Hf'. }
-          assert (C' : grec ctx M' = Some (mkrec tn ((pre ++ [i]) ++ [0]) cn 0)).
-          { unfold Bst in B'. destruct n as [|n']; [lia|]. cbn [eidx] in B'. rewrite Nat.sub_diag in B'. exact B'. }
+          { apply gies_insts; assumption. }
+          set (cnE := cnt_at (Some lim) (pre ++ [i]) (n - 1) cn).
+          assert (C' : grec ctx M' = Some (mkrec tn ((pre ++ [i]) ++ [0]) cnE 0)).
+          { unfold Bst in B'. unfold cnE. destruct n as [|n']; [lia|]. cbn [eidx] in B'. rewrite Nat.sub_diag in B'.
+            replace (S n' - 1) with n' by lia. exact B'. }
           exists M'. split; [destruct (all_done sts); mstep; exact Q'|]. split.
           { eapply FrameLt_trans; [apply QM_frame; exact QM1|exact FR'|exact FR1]. }
           unfold post_stmt. destruct (all_done sts) eqn:D; mstep; cbn [is_done].
-          -- exists cn. split; [|apply KeepB_refl]. eapply Wg_after; [exact C'|eapply (resume_fan _ _ _ _ (Some lim) 0); exact HG].
+          -- exists cnE. split; [|apply KeepB_cnt_at]. eapply Wg_after; [exact C'|eapply (resume_fan _ _ _ _ (Some lim) 0); exact HG].
           -- split; [|split].
-             ++ exists (mkrec tn ((pre ++ [i]) ++ [0]) cn 0). split; [exact C'|]. repeat split. intros lp k0 [].
+             ++ exists (mkrec tn ((pre ++ [i]) ++ [0]) cnE 0). split; [exact C'|]. repeat split. intros lp k0 [].
              ++ rewrite nest_parloop.
                 assert (Hlen : List.length sts = n).
                 { pose proof (start_list_length _ _ _ _ _ _ _ _ E2) as Len. unfold insts in Len. rewrite map_length, seq_length in Len. exact Len. }
                 rewrite Hlen. unfold insts in N'. rewrite map_map in N'. cbn [snd] in N'.
                 replace (repeat c n) with (map (fun _ : nat => c) (seq 0 n)); [exact N'|].
                 clear. generalize 0. induction n as [|n IH]; intro k; [reflexivity|]. cbn. f_equal. apply IH.
-             ++ exists (mkrec tn ((pre ++ [i]) ++ [0]) cn 0). split; [exact C'|apply KeepB_refl].
+             ++ exists (mkrec tn ((pre ++ [i]) ++ [0]) cnE 0). split; [exact C'|apply KeepB_cnt_at].
         * (* no instance *)
           assert (En : Z.to_nat nz = 0) by (apply Z.ltb_ge in Ez; lia). rewrite En in E2. cbn [insts seq map] in E2.
           destruct f; [discriminate|]. cbn [start_list] in E2. unfold ret in E2. inv E2. cbn [all_done] in H. mstep.
@@ -1186,15 +1307,16 @@ Section StartD.
           exists cn. split; [|apply KeepB_refl]. eapply Wg_move; [|exact QM1]. eapply Wg_imp; [exact HW|].
           intros f0 res Hf0. exists (S f0). cbn [walk]. rewrite HG, Hd, Ez. exact Hf0.
     - (* run_block *)
-      intros ctx ie ss i g r g' M0 M tn pre cn H Hl HQ Hgb Hi Hlt Hnf HW.
+      intros ctx ie ss i g r g' M0 M tn pre cn H Hl HQ Hgb Hi Hlt Hnf HW Hie.
       cbn [run_block] in H. destruct (nth_error ss i) as [s1|] eqn:Hn.
       + mstep as st g1 E1.
         pose proof (Eff_Fr _ _ _ (proj1 (start_eff orc imm f) _ _ _ _ _ _ E1)) as (FL1 & FR1 & _).
-        destruct (IHs ctx ie s1 g st g1 M0 M tn pre i cn E1 Hl HQ (gblock_nth _ _ _ _ _ _ Hgb Hn) Hlt Hnf HW) as (M1 & Q1 & F1 & P1).
+        destruct (IHs ctx ie s1 g st g1 M0 M tn pre i cn E1 Hl HQ (gblock_nth _ _ _ _ _ _ _ _ Hgb Hn) Hlt Hnf HW Hie) as (M1 & Q1 & F1 & P1).
         unfold post_stmt in P1. destruct (is_done st) eqn:D.
         * destruct P1 as (cn1 & HW1 & HK1).
           assert (Hi' : S i <= List.length ss) by (apply nth_error_Some; congruence).
-          destruct (IHb ctx ie ss (S i) g1 r g' M0 M1 tn pre cn1 H ltac:(rewrite FL1; exact Hl) Q1 Hgb Hi' ltac:(lia) Hnf HW1)
+          destruct (IHb ctx ie ss (S i) g1 r g' M0 M1 tn pre cn1 H ltac:(rewrite FL1; exact Hl) Q1 Hgb Hi' ltac:(lia) Hnf HW1
+                        ltac:(rewrite (ie_keep _ _ _ _ HK1); exact Hie))
             as (M2 & Q2 & F2 & P2).
           exists M2. split; [exact Q2|]. split; [eapply FrameLt_trans; eassumption|].
           destruct r as [[j st2]|].
@@ -1206,20 +1328,20 @@ Section StartD.
       + mstep. exists M. split; [exact HQ|]. split; [apply FrameLt_refl|]. exists cn. split; [|apply KeepB_refl].
         assert (Ei : i = List.length ss) by (apply nth_error_None in Hn; lia). subst i.
         eapply Wg_imp; [exact HW|]. intros f0 res Hf0. exists (S f0). cbn [walk].
-        rewrite (gblock_end _ _ _ _ _ Hgb Hn (le_n _)). exact Hf0.
+        rewrite (gblock_end _ _ _ _ _ _ _ Hgb Hn (le_n _)). exact Hf0.
     - (* start_list *)
-      intros ctx l g sts g' M0 M tn lim P j n cn H Hl HQ Hgl Hlt HK Hlen HB.
+      intros ctx l g sts g' M0 M tn lim P j n cn H Hl HQ Hgl Hlt HK Hlen HB Hgi.
       cbn [start_list] in H. destruct l as [|[ie b] r].
       + mstep. cbn [List.length] in Hlen. rewrite Nat.add_0_r in Hlen. subst j.
         exists M. split; [exact HQ|]. split; [apply FrameLt_refl|]. split; [exact HB|exact I].
-      + destruct Hgl as (Hcb & Hgb & Hgr).
+      + destruct Hgl as (Hcb & Hgb & Hgr). destruct Hgi as (Hi1 & Hir).
         destruct b as [?|t at_ ins body|?|? ? ?|? ?|? ? ?|? ? ?]; try discriminate Hcb.
         cbn [List.length] in Hlen.
         mstep as st g1 E1.
         pose proof (Eff_Fr _ _ _ (proj1 (start_eff orc imm f) _ _ _ _ _ _ E1)) as (FL1 & FR1 & _).
-        destruct (IHc ctx ie t at_ ins body g st g1 M0 M tn lim P j n cn E1 Hl HQ Hgb Hlt HK ltac:(lia) HB) as (M1 & Q1 & F1 & B1 & N1).
+        destruct (IHc ctx ie t at_ ins body g st g1 M0 M tn lim P j n cn E1 Hl HQ Hgb Hlt HK ltac:(lia) HB Hi1) as (M1 & Q1 & F1 & B1 & N1).
         mstep as sts1 g2 E2.
-        destruct (IHl ctx r g1 sts1 g2 M0 M1 tn lim P (S j) n cn E2 ltac:(rewrite FL1; exact Hl) Q1 Hgr ltac:(lia) HK ltac:(lia) B1)
+        destruct (IHl ctx r g1 sts1 g2 M0 M1 tn lim P (S j) n cn E2 ltac:(rewrite FL1; exact Hl) Q1 Hgr ltac:(lia) HK ltac:(lia) B1 Hir)
           as (M2 & Q2 & F2 & B2 & N2).
         mstep. exists M2. split; [exact Q2|]. split; [eapply FrameLt_trans; eassumption|]. split; [exact B2|].
         cbn [map snd nest_list]. split; [|exact N2].
@@ -1227,14 +1349,14 @@ Section StartD.
         * destruct (proj1 (start_cids orc imm f) _ _ _ _ _ _ E1) as (_ & R1). specialize (R1 k Hk). lia.
         * destruct (proj1 (start_cids orc imm f) _ _ _ _ _ _ E1) as (_ & R1). specialize (R1 k Hk). lia.
     - (* loop_test *)
-      intros ctx ie s k g st g' M0 M tn pre i cn H Hl HQ Hg Hlt Hnf HW.
+      intros ctx ie s k g st g' M0 M tn pre i cn H Hl HQ Hg Hlt Hnf HW Hie.
       cbn [loop_test] in H.
       destruct s as [n at_ ins|t at_ ins body|bs|e p fl|e b|v lim b|v lim c]; try discriminate.
       + (* while *)
-        pose proof Hg as Hg0. cbn [guarded] in Hg. destruct Hg as (HG & Hb).
+        pose proof Hg as Hg0. cbn [guarded] in Hg. destruct Hg as (HG & Hb & HV).
         mstep as bb g1 E1.
         pose proof (Eff_Fr _ _ _ (decide_m_eff _ _ _ _ _ _ E1)) as (FL1 & FR1 & _).
-        destruct (DQ_decide GK orc _ _ _ _ _ M0 M E1 HQ) as (M1 & Q1 & QM1 & Hd).
+        destruct (DQ_decide GK orc CH _ _ _ _ _ M0 M E1 HQ) as (M1 & Q1 & QM1 & Hd).
         destruct bb.
         * mstep as r g2 E2.
           pose proof (Eff_Fr _ _ _ (proj1 (proj2 (start_eff orc imm f)) _ _ _ _ _ _ _ E2)) as (FL2 & FR2 & _).
@@ -1243,6 +1365,7 @@ Section StartD.
           { rewrite HG. exact I. }
           { eapply Wg_move; [|exact QM1]. eapply Wg_imp; [exact HW|].
             intros f0 res Hf0. exists f0. unfold ltest. rewrite HG, Hd. exact Hf0. }
+          { rewrite ie_of_snoc, HV. exact Hie. }
           assert (F02 : FrameLt g ctx M M2) by (eapply FrameLt_trans; [apply QM_frame; exact QM1|exact F2|exact FR1]).
           destruct r as [[j st2]|].
           -- mstep. exists M2. split; [exact Q2|]. split; [exact F02|]. unfold post_stmt. cbn [is_done].
@@ -1256,6 +1379,7 @@ Section StartD.
                            ltac:(lia) Hnf) as (M3 & Q3 & F3 & P3).
              { eapply Wg_imp; [exact HW2|]. intros f0 res Hf0. exists (S f0). cbn [leave]. rewrite unsnoc_app, HG.
                unfold ltest in Hf0. rewrite HG in Hf0. exact Hf0. }
+             { erewrite ie_keep; [exact Hie|]. eapply KeepB_inner; [|exact HK2]. discriminate. }
              exists M3. split; [exact Q3|]. split; [eapply FrameLt_trans; [exact F02|exact F3|lia]|].
              assert (HK2' : KeepB pre cn cn2) by (eapply KeepB_inner; [|exact HK2]; discriminate).
              unfold post_stmt in *. destruct (is_done st).
@@ -1266,10 +1390,10 @@ Section StartD.
           exists cn. split; [|apply KeepB_refl]. eapply Wg_move; [|exact QM1]. eapply Wg_imp; [exact HW|].
           intros f0 res Hf0. exists f0. unfold ltest. rewrite HG, Hd. exact Hf0.
       + (* counting loop *)
-        pose proof Hg as Hg0. cbn [guarded] in Hg. destruct Hg as (HG & Hb).
+        pose proof Hg as Hg0. cbn [guarded] in Hg. destruct Hg as (HG & Hb & HV).
         mstep as nz g1 E1.
         pose proof (Eff_Fr _ _ _ (read_limit_eff _ _ _ _ _ _ E1)) as (FL1 & FR1 & _).
-        destruct (DQ_limit GK orc _ _ _ _ _ M0 M E1 HQ) as (M1 & Q1 & QM1 & Hd).
+        destruct (DQ_limit GK orc CH _ _ _ _ _ M0 M E1 HQ) as (M1 & Q1 & QM1 & Hd).
         destruct (Z.of_nat k <? nz)%Z eqn:Ez.
         * mstep as r g2 E2.
           pose proof (Eff_Fr _ _ _ (proj1 (proj2 (start_eff orc imm f)) _ _ _ _ _ _ _ E2)) as (FL2 & FR2 & _).
@@ -1279,6 +1403,8 @@ Section StartD.
           { rewrite HG. exact I. }
           { eapply Wg_move; [|exact QM1]. eapply Wg_imp; [exact HW|].
             intros f0 res Hf0. exists f0. unfold ltest. rewrite HG, Hd, Ez. exact Hf0. }
+          { unfold ieq in *. rewrite ie_of_snoc, HV. unfold cn1. rewrite getc_setc_same. f_equal.
+            rewrite (ie_keep _ _ _ _ (KeepB_setc pre i cn k)). exact Hie. }
           assert (F02 : FrameLt g ctx M M2) by (eapply FrameLt_trans; [apply QM_frame; exact QM1|exact F2|exact FR1]).
           assert (HK01 : KeepB pre cn cn1) by apply KeepB_setc.
           destruct r as [[j st2]|].
@@ -1297,6 +1423,7 @@ Section StartD.
                            ltac:(lia) Hnf) as (M3 & Q3 & F3 & P3).
              { eapply Wg_imp; [exact HW2|]. intros f0 res Hf0. exists (S f0). cbn [leave]. rewrite unsnoc_app, HG, Ek.
                unfold ltest in Hf0. rewrite HG in Hf0. exact Hf0. }
+             { erewrite ie_keep; [exact Hie|]. eapply KeepB_trans; [exact HK01|]. eapply KeepB_inner; [|exact HK2]. discriminate. }
              exists M3. split; [exact Q3|]. split; [eapply FrameLt_trans; [exact F02|exact F3|lia]|].
              assert (HK2' : KeepB pre cn cn2).
              { eapply KeepB_trans; [exact HK01|]. eapply KeepB_inner; [|exact HK2]. discriminate. }
@@ -1308,14 +1435,14 @@ Section StartD.
           exists cn. split; [|apply KeepB_refl]. eapply Wg_move; [|exact QM1]. eapply Wg_imp; [exact HW|].
           intros f0 res Hf0. exists f0. unfold ltest. rewrite HG, Hd, Ez. exact Hf0.
     - (* branch / instance *)
-      intros ctx ie t at_ ins body g st g' M0 M tn lim P j n cn H Hl HQ Hg Hlt HK Hj HB.
-      pose proof (DQ_lost _ _ _ _ _ HQ) as Hlost.
-      cbn [start_stmt] in H. cbn [guarded] in Hg. destruct Hg as (-> & HG & HG0 & Hbody).
+      intros ctx ie t at_ ins body g st g' M0 M tn lim P j n cn H Hl HQ Hg Hlt HK Hj HB Hie.
+      pose proof (DQ_lost _ _ _ _ _ _ HQ) as Hlost.
+      cbn [start_stmt] in H. cbn [guarded] in Hg. destruct Hg as (-> & HG & HG0 & Hbody & HI & HV).
       mstep as id g1 E1. mstep as u2 g2 E2.
       destruct (tstart_N _ _ _ _ _ _ _ _ _ E1 E2) as (-> & B1 & B2 & B3 & _).
       set (p := P ++ [eidx lim j]) in *.
       set (nTS := mk TS t (mksite tn p) (g_tid g) (Some ctx) (subst_params ie ins)) in *.
-      set (r1 := mkrec tn p cn (n - S j)).
+      set (r1 := mkrec tn p (cnt_at lim P j cn) (n - S j)).
       set (M1 := start_upd M true nTS ctx r1).
       assert (Q2 : DQ M0 g2 M1).
       { unfold fresh_t in E1. inv E1.
@@ -1323,11 +1450,14 @@ Section StartD.
         destruct j as [|j']; cbn [Bst] in HB.
         - destruct HB as (r & R1 & R2 & R3 & f' & Hf').
           assert (Ep : P ++ [0] = p) by (unfold p; destruct lim; reflexivity). rewrite Ep in Hf'.
-          exact (istart_walk GK orc M true nTS ctx r tn p cn (n - 1) Hlost eq_refl eq_refl eq_refl R1 R2 R3 (ex_intro _ f' Hf')).
-        - unfold M1, r1. eapply (istart_sib GK orc M nTS ctx (mkrec tn (P ++ [eidx lim j']) cn (n - S j')) tn (P ++ [eidx lim j']) p (n - S (S j')));
+          exact (istart_walk GK orc CH M true nTS ctx r tn p (cnt_at lim P 0 cn) (n - 1) Hlost eq_refl eq_refl eq_refl R1 R2 R3 (ex_intro _ f' Hf')
+                             (chk_ok INS LV tn p (cnt_at lim P 0 cn) (n - 1) TS t (g_tid g) (Some ctx) ie ins HI Hie)).
+        - unfold M1, r1. rewrite <- (sib_cnt_at tn lim P j' n cn (eidx lim j') HK).
+          eapply (istart_sib GK orc CH M nTS ctx (mkrec tn (P ++ [eidx lim j']) (cnt_at lim P j' cn) (n - S j')) tn (P ++ [eidx lim j']) p (n - S (S j')));
             try eassumption; try reflexivity.
           + cbn [mkrec d_more]. lia.
-          + unfold sibling, p. rewrite unsnoc_app. destruct lim as [lm|]; cbn in HK; rewrite HK; reflexivity. }
+          + unfold sibling, p. rewrite unsnoc_app. destruct lim as [lm|]; cbn in HK; rewrite HK; reflexivity.
+          + cbn [mkrec d_cnt]. rewrite (sib_cnt_at tn lim P j' n cn (eidx lim j') HK). apply chk_ok; [exact HI|exact Hie]. }
       assert (C1 : grec ctx M1 = Some r1) by (apply start_upd_ctx; left; cbn; lia).
       destruct (dcall_rest f IHb ctx ie t tn p ins body g2 st g' M0 M1 (g_tid g) r1 H
                            ltac:(rewrite B1; exact Hl) Q2 B2 Hlt Hbody HG0 (start_upd_id _ nTS _ _) C1 eq_refl)
@@ -1343,10 +1473,13 @@ End StartD.
 (* ===================================================================== *)
 Section DeliverD.
   Variable GK : name -> list nat -> gk.
+  Variable INS : name -> list nat -> list param.
+  Variable LV : name -> list nat -> option name.
+  Notation CH := (chk_params INS LV).
   Variable orc : oracle.
   Variable imm : nat -> bool.
 
-  Notation DQ := (DQ GK orc).
+  Notation DQ := (DQ GK orc CH).
   Notation Wg := (Wg GK orc).
 
   Definition FrameD (g : G) (ctx : nat) (ids : list nat) (M M' : dst) : Prop :=
@@ -1367,7 +1500,7 @@ Section DeliverD.
   Definition DCd (f : nat) : Prop :=
     forall ctx ie t at_ ins body st id g r g' M0 M tn q rc,
       deliver orc imm f ctx ie (XCall t at_ ins body) st id g = Ok (r, g') ->
-      lst_all (g_ls g) -> DQ M0 g M -> guarded GK tn q (XCall t at_ ins body) -> wf (XCall t at_ ins body) st ->
+      lst_all (g_ls g) -> DQ M0 g M -> guarded GK INS LV tn q (XCall t at_ ins body) -> wf (XCall t at_ ins body) st ->
       ctx < g_tid g -> cidok g ctx (cids st) -> grec ctx M = Some rc -> nest_ok M (XCall t at_ ins body) st ->
       match r with
       | None => True
@@ -1379,9 +1512,9 @@ Section DeliverD.
   Definition DDd (f : nat) : Prop :=
     forall ctx ie s st id g r g' M0 M tn pre i rc,
       deliver orc imm f ctx ie s st id g = Ok (r, g') ->
-      lst_all (g_ls g) -> DQ M0 g M -> guarded GK tn (pre ++ [i]) s -> wf s st -> nofan (GK tn pre) ->
+      lst_all (g_ls g) -> DQ M0 g M -> guarded GK INS LV tn (pre ++ [i]) s -> wf s st -> nofan (GK tn pre) ->
       ctx < g_tid g -> cidok g ctx (cids st) -> grec ctx M = Some rc ->
-      spine_ok M ctx tn (pre ++ [i]) s st -> nest_ok M s st ->
+      spine_ok M ctx tn (pre ++ [i]) s st -> nest_ok M s st -> ieq (ie_of (LV tn) (d_cnt rc) pre) ie ->
       match r with
       | None => True
       | Some st' => exists M', DQ M0 g' M' /\ FrameD g ctx (cids st) M M' /\ post_stmt GK orc M' ctx tn pre i s st' (d_cnt rc)
@@ -1390,9 +1523,10 @@ Section DeliverD.
   Definition DBd (f : nat) : Prop :=
     forall ctx ie ss i sti id g r g' M0 M tn pre rc,
       deliver_block orc imm f ctx ie ss i sti id g = Ok (r, g') ->
-      lst_all (g_ls g) -> DQ M0 g M -> gblock GK tn pre ss -> wf_block ss i sti -> nofan (GK tn pre) ->
+      lst_all (g_ls g) -> DQ M0 g M -> gblock GK INS LV tn pre ss -> wf_block ss i sti -> nofan (GK tn pre) ->
       ctx < g_tid g -> cidok g ctx (cids sti) -> grec ctx M = Some rc ->
       (forall s, nth_error ss i = Some s -> spine_ok M ctx tn (pre ++ [i]) s sti /\ nest_ok M s sti) ->
+      ieq (ie_of (LV tn) (d_cnt rc) pre) ie ->
       match r with
       | None => True
       | Some r' =>
@@ -1407,7 +1541,7 @@ Section DeliverD.
   Definition DLd (f : nat) : Prop :=
     forall ctx l sts id g r g' M0 M tn lim P j rc,
       deliver_list orc imm f ctx l sts id g = Ok (r, g') ->
-      lst_all (g_ls g) -> DQ M0 g M -> glist GK lim tn P j l -> wf_list l sts ->
+      lst_all (g_ls g) -> DQ M0 g M -> glist GK INS LV lim tn P j l -> wf_list l sts ->
       ctx < g_tid g -> cidok g ctx (flat_map cids sts) -> grec ctx M = Some rc -> nest_list M (map snd l) sts ->
       match r with
       | None => True
@@ -1439,12 +1573,12 @@ Section DeliverD.
     induction f as [|f IH].
     { split; [|split; [|split]]; red; intros; discriminate. }
     destruct IH as (IHc & IHd & IHb & IHl).
-    destruct (start_dec GK orc imm f) as (STs & STb & STl & STt & STc).
+    destruct (start_dec GK INS LV orc imm f) as (STs & STb & STl & STt & STc).
     assert (DC : DCd (S f)).
     { intros ctx ie t at_ ins body st id g r g' M0 M tn q rc H Hl HQ Hg Hwf Hlt Hcid Hrc HN.
       cbn [deliver] in H. destruct st as [|id'|cid i sti|sts|bb i sti|k i sti|sts]; try (mstep; exact I).
       inversion Hwf as [| |? ? ? ? ? ? s1 ? Hn1 Hw1| | | | |]; subst.
-      cbn [guarded] in Hg. destruct Hg as (-> & HG & HG0 & Hbody).
+      cbn [guarded] in Hg. destruct Hg as (-> & HG & HG0 & Hbody & _ & _).
       cbn [nest_ok] in HN. rewrite Hn1 in HN. destruct HN as (SP & NE).
       destruct Hcid as (ND & Hnin & Hb). cbn [cids] in ND, Hnin, Hb. inversion ND as [|? ? Hcn ND']; subst.
       pose proof SP as (rcid & RC1 & _).
@@ -1461,6 +1595,7 @@ Section DeliverD.
         { split; [exact ND'|]. split; [exact Hcn|]. intros x Hx. apply Hb. right. exact Hx. }
         { exact RC1. }
         { intros s Hs. assert (s = s1) by congruence. subst s. split; assumption. }
+        { exact eq_refl. }
         mstep. exists M1. split; [exact Q1|]. split; [|split].
         + intros k Hk Hnk Hnik. apply F1; [exact Hk|intro; apply Hnik; left; congruence|intro; apply Hnik; right; assumption].
         + cbn [nest_ok]. rewrite Hn2. split; assumption.
@@ -1471,6 +1606,7 @@ Section DeliverD.
         { split; [exact ND'|]. split; [exact Hcn|]. intros x Hx. apply Hb. right. exact Hx. }
         { exact RC1. }
         { intros s Hs. assert (s = s1) by congruence. subst s. split; assumption. }
+        { exact eq_refl. }
         cbn [dres] in DE.
         mstep as u2 g2 E2. mstep.
         destruct (R4 1 (None, cn', ds_q M1, 0)) as (f' & Hf'); [reflexivity|].
@@ -1478,7 +1614,7 @@ Section DeliverD.
         assert (Hctx1 : grec ctx M1 = Some rc) by (rewrite (F1 ctx Hlt Hne Hni); exact Hrc).
         exists (fin_upd M1 nTF). split; [|split; [|split]].
         + eapply DQ_emit; [exact E2|rewrite (d_ls _ _ _ _ DE); exact Hl|exact Q1| |reflexivity].
-          eapply iend; [apply (DQ_lost _ _ _ _ _ Q1)|reflexivity|exact R1|exact R3|]. exists f'. exact Hf'.
+          eapply iend; [apply (DQ_lost _ _ _ _ _ _ Q1)|reflexivity|exact R1|exact R3|]. exists f'. exact Hf'.
         + intros k Hk Hnk Hnik. rewrite (fin_upd_other _ nTF ctx) by (try reflexivity; exact Hnk).
           apply F1; [exact Hk|intro; apply Hnik; left; congruence|intro; apply Hnik; right; assumption].
         + exact I.
@@ -1488,17 +1624,17 @@ Section DeliverD.
       - mstep. exact I. }
     split; [exact DC|]. split; [|split].
     - (* deliver *)
-      intros ctx ie s st id g r g' M0 M tn pre i rc H Hl HQ Hg Hwf Hnf Hlt Hcid Hrc SP HN.
+      intros ctx ie s st id g r g' M0 M tn pre i rc H Hl HQ Hg Hwf Hnf Hlt Hcid Hrc SP HN Hie.
       destruct s as [n at_ ins|t at_ ins body|bs|e p fl|e b|v lim b|v lim c].
       + (* service *)
         cbn [deliver] in H. destruct st as [|id'|cid i0 sti|sts|bb i0 sti|k i0 sti|sts]; try (mstep; exact I).
         destruct (Nat.eqb id id'); [|mstep; exact I].
         mstep as u1 g1 E1. mstep.
-        cbn [guarded] in Hg. destruct Hg as (-> & HG).
+        cbn [guarded] in Hg. destruct Hg as (-> & HG & _ & _).
         destruct SP as (r0 & A1 & A2 & A3 & A4 & _). assert (r0 = rc) by congruence. subst r0. cbn [leafp] in A3.
         set (nSF := mk SF n (mksite tn (pre ++ [i])) id (Some ctx) (subst_params ie ins)) in *.
         exists (fin_upd M nSF). split; [|split].
-        * eapply DQ_emit; [exact E1|exact Hl|exact HQ| |reflexivity]. apply isf; [apply (DQ_lost _ _ _ _ _ HQ)|reflexivity].
+        * eapply DQ_emit; [exact E1|exact Hl|exact HQ| |reflexivity]. apply isf; [apply (DQ_lost _ _ _ _ _ _ HQ)|reflexivity].
         * intros k Hk Hnk _. apply (fin_upd_other _ nSF ctx); [reflexivity|exact Hnk].
         * unfold post_stmt. cbn [is_done]. exists (d_cnt rc). split; [|apply KeepB_refl].
           eapply Wg_after; [|apply resume_leaf; exact Hnf].
@@ -1520,10 +1656,10 @@ Section DeliverD.
       + (* parallel *)
         cbn [deliver] in H. destruct st as [|id'|cid i0 sti|sts|bb i0 sti|k i0 sti|sts]; try (mstep; exact I).
         mstep as r1 g1 E1. destruct r1 as [sts'|]; [|mstep; exact I].
-        cbn [guarded] in Hg. destruct Hg as (HG & Hbs).
+        cbn [guarded] in Hg. destruct Hg as (HG & Hbs & _).
         inversion Hwf as [| | |? ? HF| | | |]; subst.
         cbn [cids] in Hcid. rewrite nest_par in HN.
-        destruct (IHl ctx _ sts id g (Some sts') g1 M0 M tn None (pre ++ [i]) 0 rc E1 Hl HQ (glist_par _ _ _ _ _ _ Hbs)
+        destruct (IHl ctx _ sts id g (Some sts') g1 M0 M tn None (pre ++ [i]) 0 rc E1 Hl HQ (glist_par _ _ _ _ _ _ _ _ Hbs)
                       (wf_list_map_intro _ _ _ HF) Hlt Hcid Hrc) as (M' & Q' & F' & N' & rc' & C' & SPos & Dn).
         { rewrite map_snd_pair. exact HN. }
         destruct SP as (r0 & A1 & A2 & A3 & A4 & _). assert (r0 = rc) by congruence. subst r0. cbn [leafp] in A3.
@@ -1539,7 +1675,7 @@ Section DeliverD.
       + (* condition *)
         cbn [deliver] in H. destruct st as [|id'|cid i0 sti|sts|bb j sti|k i0 sti|sts]; try (mstep; exact I).
         mstep as r1 g1 E1.
-        cbn [guarded] in Hg. destruct Hg as (HG & HG0 & HG1 & Hp & Hf).
+        cbn [guarded] in Hg. destruct Hg as (HG & HG0 & HG1 & Hp & Hf & HV & HV0 & HV1).
         inversion Hwf as [| | | |? ? ? ? ? s1 ? Hn1 Hw1| | |]; subst.
         set (pre' := (pre ++ [i]) ++ [if bb then 0 else 1]).
         cbn [cids] in Hcid. cbn [nest_ok] in HN. rewrite Hn1 in HN.
@@ -1556,6 +1692,7 @@ Section DeliverD.
           { unfold pre'. destruct bb; [rewrite HG0|rewrite HG1]; exact I. }
           { exact Hlt. } { exact Hcid. } { exact Hrc. }
           { intros s Hs. assert (s = s1) by congruence. subst s. split; assumption. }
+          { unfold pre'. destruct bb; rewrite ie_of_snoc; [rewrite HV0|rewrite HV1]; rewrite ie_of_snoc, HV; exact Hie. }
           exists M1. split; [exact Q1|]. split; [exact F1|]. unfold post_stmt. cbn [is_done]. split; [|split].
           -- destruct SP2 as (r0 & A1 & A2 & A3 & A4 & A5). exists r0. split; [exact A1|]. split; [exact A2|].
              cbn [leafp loopsp]. rewrite Hn2. repeat split; assumption.
@@ -1567,6 +1704,7 @@ Section DeliverD.
           { unfold pre'. destruct bb; [rewrite HG0|rewrite HG1]; exact I. }
           { exact Hlt. } { exact Hcid. } { exact Hrc. }
           { intros s Hs. assert (s = s1) by congruence. subst s. split; assumption. }
+          { unfold pre'. destruct bb; rewrite ie_of_snoc; [rewrite HV0|rewrite HV1]; rewrite ie_of_snoc, HV; exact Hie. }
           exists M1. split; [exact Q1|]. split; [exact F1|]. unfold post_stmt. cbn [is_done].
           exists cn'. split; [|apply KI; exact HK].
           eapply Wg_imp; [exact HW2|]. intros f0 res Hf0. exists (S f0). cbn [leave]. unfold pre'. rewrite unsnoc_app.
@@ -1576,7 +1714,7 @@ Section DeliverD.
         cbn [deliver] in H. destruct st as [|id'|cid i0 sti|sts|bb i0 sti|k j sti|sts]; try (mstep; exact I).
         mstep as r1 g1 E1.
         pose proof (proj1 (proj2 (deliver_eff orc imm f)) _ _ _ _ _ _ _ _ _ E1) as DE.
-        cbn [guarded] in Hg. destruct Hg as (HG & Hb).
+        cbn [guarded] in Hg. destruct Hg as (HG & Hb & HV).
         inversion Hwf as [| | | | |? ? ? ? s1 ? Hn1 Hw1| |]; subst.
         cbn [cids] in Hcid. cbn [nest_ok] in HN. rewrite Hn1 in HN.
         assert (SP1 : spine_ok M ctx tn ((pre ++ [i]) ++ [j]) s1 sti).
@@ -1587,6 +1725,7 @@ Section DeliverD.
         * mstep. destruct PB as (M1 & Q1 & F1 & s2 & Hn2 & SP2 & NE2 & r' & Hr' & HK).
           { rewrite HG. exact I. } { exact Hlt. } { exact Hcid. } { exact Hrc. }
           { intros s Hs. assert (s = s1) by congruence. subst s. split; assumption. }
+          { rewrite ie_of_snoc, HV. exact Hie. }
           exists M1. split; [exact Q1|]. split; [exact F1|]. unfold post_stmt. cbn [is_done]. split; [|split].
           -- destruct SP2 as (r0 & A1 & A2 & A3 & A4 & A5). exists r0. split; [exact A1|]. split; [exact A2|].
              cbn [leafp loopsp]. rewrite Hn2. repeat split; assumption.
@@ -1595,12 +1734,14 @@ Section DeliverD.
         * destruct PB as (M1 & Q1 & F1 & cn1 & HW1 & HK1).
           { rewrite HG. exact I. } { exact Hlt. } { exact Hcid. } { exact Hrc. }
           { intros s Hs. assert (s = s1) by congruence. subst s. split; assumption. }
+          { rewrite ie_of_snoc, HV. exact Hie. }
           cbn [dres] in DE.
           mstep as st2 g2 E2. mstep.
           destruct (STt ctx ie (XWhile e b) (S k) g1 st2 g2 M0 M1 tn pre i cn1 E2 ltac:(rewrite (d_ls _ _ _ _ DE); exact Hl) Q1 Hg0
                         ltac:(pose proof (d_tid _ _ _ _ DE); lia) Hnf) as (M2 & Q2 & F2 & P2).
           { eapply Wg_imp; [exact HW1|]. intros f0 res Hf0. exists (S f0). cbn [leave]. rewrite unsnoc_app, HG.
             unfold ltest in Hf0. rewrite HG in Hf0. exact Hf0. }
+          { erewrite ie_keep; [exact Hie|]. eapply KeepB_inner; [|exact HK1]. discriminate. }
           exists M2. split; [exact Q2|]. split; [eapply FrameD_lt; [exact F1|exact F2|exact (d_tid _ _ _ _ DE)]|].
           assert (HK1' : KeepB pre (d_cnt rc) cn1) by (eapply KeepB_inner; [|exact HK1]; discriminate).
           unfold post_stmt in *. destruct (is_done st2).
@@ -1612,7 +1753,7 @@ Section DeliverD.
         cbn [deliver] in H. destruct st as [|id'|cid i0 sti|sts|bb i0 sti|k j sti|sts]; try (mstep; exact I).
         mstep as r1 g1 E1.
         pose proof (proj1 (proj2 (deliver_eff orc imm f)) _ _ _ _ _ _ _ _ _ E1) as DE.
-        cbn [guarded] in Hg. destruct Hg as (HG & Hb).
+        cbn [guarded] in Hg. destruct Hg as (HG & Hb & HV).
         inversion Hwf as [| | | | | |? ? ? ? ? s1 ? Hn1 Hw1|]; subst.
         cbn [cids] in Hcid. cbn [nest_ok] in HN. rewrite Hn1 in HN.
         assert (Hk : getc (pre ++ [i]) (d_cnt rc) = k).
@@ -1627,6 +1768,7 @@ Section DeliverD.
         * mstep. destruct PB as (M1 & Q1 & F1 & s2 & Hn2 & SP2 & NE2 & r' & Hr' & HK).
           { rewrite HG. exact I. } { exact Hlt. } { exact Hcid. } { exact Hrc. }
           { intros s Hs. assert (s = s1) by congruence. subst s. split; assumption. }
+          { unfold ieq in *. rewrite ie_of_snoc, HV, Hk. f_equal. exact Hie. }
           exists M1. split; [exact Q1|]. split; [exact F1|]. unfold post_stmt. cbn [is_done]. split; [|split].
           -- destruct SP2 as (r0 & A1 & A2 & A3 & A4 & A5). exists r0. split; [exact A1|]. split; [exact A2|].
              cbn [leafp loopsp]. rewrite Hn2. split; [exact A3|]. split; [exact A4|].
@@ -1637,6 +1779,7 @@ Section DeliverD.
         * destruct PB as (M1 & Q1 & F1 & cn1 & HW1 & HK1).
           { rewrite HG. exact I. } { exact Hlt. } { exact Hcid. } { exact Hrc. }
           { intros s Hs. assert (s = s1) by congruence. subst s. split; assumption. }
+          { unfold ieq in *. rewrite ie_of_snoc, HV, Hk. f_equal. exact Hie. }
           cbn [dres] in DE.
           mstep as st2 g2 E2. mstep.
           assert (Ek : getc (pre ++ [i]) cn1 = k) by (rewrite (HK1 (pre ++ [i]) (not_sext_self _)); exact Hk).
@@ -1644,6 +1787,7 @@ Section DeliverD.
                         ltac:(pose proof (d_tid _ _ _ _ DE); lia) Hnf) as (M2 & Q2 & F2 & P2).
           { eapply Wg_imp; [exact HW1|]. intros f0 res Hf0. exists (S f0). cbn [leave]. rewrite unsnoc_app, HG, Ek.
             unfold ltest in Hf0. rewrite HG in Hf0. exact Hf0. }
+          { erewrite ie_keep; [exact Hie|]. eapply KeepB_inner; [|exact HK1]. discriminate. }
           exists M2. split; [exact Q2|]. split; [eapply FrameD_lt; [exact F1|exact F2|exact (d_tid _ _ _ _ DE)]|].
           assert (HK1' : KeepB pre (d_cnt rc) cn1) by (eapply KeepB_inner; [|exact HK1]; discriminate).
           unfold post_stmt in *. destruct (is_done st2).
@@ -1653,13 +1797,13 @@ Section DeliverD.
       + (* parallel loop *)
         cbn [deliver] in H. destruct st as [|id'|cid i0 sti|sts|bb i0 sti|k i0 sti|sts]; try (mstep; exact I).
         mstep as r1 g1 E1. destruct r1 as [sts'|]; [|mstep; exact I].
-        cbn [guarded] in Hg. destruct Hg as (HG & Hcc & Hcs).
+        cbn [guarded] in Hg. destruct Hg as (HG & Hcc & Hcs & _).
         inversion Hwf as [| | | | | | |? ? ? ? HF]; subst.
         cbn [cids] in Hcid. rewrite nest_parloop in HN.
         pose proof (proj2 (proj2 (deliver_wf orc imm f)) _ _ _ _ _ _ _ E1 (wf_list_insts _ _ _ _ HF)) as Hw'. cbn [wf_lo] in Hw'.
         assert (Hlen : List.length sts' = List.length sts).
         { apply F2_length in Hw'. unfold insts in Hw'. rewrite map_length, seq_length in Hw'. congruence. }
-        destruct (IHl ctx _ sts id g (Some sts') g1 M0 M tn (Some lim) (pre ++ [i]) 0 rc E1 Hl HQ (glist_insts _ _ _ _ _ _ _ _ _ Hcc Hcs)
+        destruct (IHl ctx _ sts id g (Some sts') g1 M0 M tn (Some lim) (pre ++ [i]) 0 rc E1 Hl HQ (glist_insts _ _ _ _ _ _ _ _ _ _ _ Hcc Hcs)
                       (wf_list_insts _ _ _ _ HF) Hlt Hcid Hrc) as (M' & Q' & F' & N' & rc' & C' & SPos & Dn).
         { rewrite snd_insts. exact HN. }
         destruct SP as (r0 & A1 & A2 & A3 & A4 & _). assert (r0 = rc) by congruence. subst r0. cbn [leafp] in A3.
@@ -1673,18 +1817,19 @@ Section DeliverD.
           -- rewrite nest_parloop, Hlen. rewrite snd_insts in N'. exact N'.
           -- exists rc'. split; [exact C'|]. rewrite S3. apply KeepB_refl.
     - (* deliver_block *)
-      intros ctx ie ss i sti id g r g' M0 M tn pre rc H Hl HQ Hgb (s1 & Hn1 & Hw1) Hnf Hlt Hcid Hrc Hsp.
+      intros ctx ie ss i sti id g r g' M0 M tn pre rc H Hl HQ Hgb (s1 & Hn1 & Hw1) Hnf Hlt Hcid Hrc Hsp Hie.
       cbn [deliver_block] in H. rewrite Hn1 in H. mstep as r1 g1 E1. destruct r1 as [st1|]; [|mstep; exact I].
       pose proof (proj1 (deliver_eff orc imm f) _ _ _ _ _ _ _ _ E1) as DE. cbn [dres] in DE.
       destruct (Hsp s1 Hn1) as (SP & NE).
-      destruct (IHd ctx ie s1 sti id g (Some st1) g1 M0 M tn pre i rc E1 Hl HQ (gblock_nth _ _ _ _ _ _ Hgb Hn1) Hw1 Hnf Hlt Hcid Hrc SP NE)
+      destruct (IHd ctx ie s1 sti id g (Some st1) g1 M0 M tn pre i rc E1 Hl HQ (gblock_nth _ _ _ _ _ _ _ _ Hgb Hn1) Hw1 Hnf Hlt Hcid Hrc SP NE Hie)
         as (M1 & Q1 & F1 & P1).
       unfold post_stmt in P1. destruct (is_done st1) eqn:D.
       + destruct P1 as (cn1 & HW1 & HK1).
         mstep as r2 g2 E2. mstep.
         assert (Hi' : S i <= List.length ss) by (apply nth_error_Some; congruence).
         destruct (STb ctx ie ss (S i) g1 r2 g2 M0 M1 tn pre cn1 E2 ltac:(rewrite (d_ls _ _ _ _ DE); exact Hl) Q1 Hgb Hi'
-                      ltac:(pose proof (d_tid _ _ _ _ DE); lia) Hnf HW1) as (M2 & Q2 & F2 & P2).
+                      ltac:(pose proof (d_tid _ _ _ _ DE); lia) Hnf HW1
+                      ltac:(rewrite (ie_keep _ _ _ _ HK1); exact Hie)) as (M2 & Q2 & F2 & P2).
         exists M2. split; [exact Q2|]. split; [eapply FrameD_lt; [exact F1|exact F2|exact (d_tid _ _ _ _ DE)]|].
         destruct r2 as [[j st2]|].
         * destruct P2 as (s2 & A1 & A2 & A3 & r' & A4 & A5). exists s2. repeat split; try assumption.
@@ -1739,6 +1884,7 @@ End DeliverD.
 Section Exec.
   Variable GK : name -> list nat -> gk.
   Variable orc : oracle.
+  Variable chk : drec -> notif -> bool.
 
   Lemma expect_fuel : forall f F r q res, expect GK orc f r q = Some (Some res) ->
       expect GK orc F r q = Some (Some res) \/ expect GK orc F r q = Some None.
@@ -1768,8 +1914,8 @@ Section Exec.
     destruct (expect_fuel f F _ _ _ E) as [E'|E']; rewrite E'; [left; exact H|right; reflexivity].
   Qed.
 
-  Lemma dec_notif_fuel : forall f F M n M1, dec_notif GK orc f M n = Some M1 -> ds_lost M1 = false ->
-      exists X, dec_notif GK orc F M n = Some X /\ (X = M1 \/ ds_lost X = true).
+  Lemma dec_notif_fuel : forall f F M n M1, dec_notif GK orc chk f M n = Some M1 -> ds_lost M1 = false ->
+      exists X, dec_notif GK orc chk F M n = Some X /\ (X = M1 \/ ds_lost X = true).
   Proof.
     intros f F M n M1 H Hl. unfold dec_notif in *.
     assert (ST : forall add,
@@ -1783,7 +1929,7 @@ Section Exec.
                    else match on_start GK orc f r (st_path (n_site n)) (ds_q M) with
                         | Reject => None
                         | GiveUp => Some (lose M)
-                        | Next r' => Some {| ds_recs := add (setr c r' (ds_recs M)); ds_q := ds_q M; ds_lost := false |}
+                        | Next r' => if chk r' n then Some {| ds_recs := add (setr c r' (ds_recs M)); ds_q := ds_q M; ds_lost := false |} else None
                         end
                  end
                end = Some M1 ->
@@ -1798,7 +1944,7 @@ Section Exec.
                      else match on_start GK orc F r (st_path (n_site n)) (ds_q M) with
                           | Reject => None
                           | GiveUp => Some (lose M)
-                          | Next r' => Some {| ds_recs := add (setr c r' (ds_recs M)); ds_q := ds_q M; ds_lost := false |}
+                          | Next r' => if chk r' n then Some {| ds_recs := add (setr c r' (ds_recs M)); ds_q := ds_q M; ds_lost := false |} else None
                           end
                    end
                  end = Some X /\ (X = M1 \/ ds_lost X = true)).
@@ -1822,19 +1968,19 @@ Section Exec.
     - exists M1. split; [exact H|left; reflexivity].
   Qed.
 
-  Lemma dec_entry_fuel : forall F M e M1, istep GK orc M e M1 ->
-      exists X, dec_entry GK orc F M e = Some X /\ (X = M1 \/ ds_lost X = true).
+  Lemma dec_entry_fuel : forall F M e M1, istep GK orc chk M e M1 ->
+      exists X, dec_entry GK orc chk F M e = Some X /\ (X = M1 \/ ds_lost X = true).
   Proof.
     intros F M e M1 (H1 & H2 & f & Hf). unfold dec_entry in *. rewrite H1 in *.
     destruct e as [[|l] n r|o kk nm id fl|v cc|fi|fi fr]; try (exists M1; split; [exact Hf|left; reflexivity]).
     eapply dec_notif_fuel; eassumption.
   Qed.
 
-  Lemma dec_log_lost : forall F l X, ds_lost X = true -> dec_log GK orc F X l = Some X.
+  Lemma dec_log_lost : forall F l X, ds_lost X = true -> dec_log GK orc chk F X l = Some X.
   Proof. intros F. induction l as [|e l IH]; intros X H; [reflexivity|]. cbn [dec_log]. unfold dec_entry. rewrite H. apply IH. exact H. Qed.
 
-  Lemma dec_log_fuel : forall F M l M', ilog GK orc M l M' ->
-      exists X, dec_log GK orc F M l = Some X /\ (X = M' \/ ds_lost X = true).
+  Lemma dec_log_fuel : forall F M l M', ilog GK orc chk M l M' ->
+      exists X, dec_log GK orc chk F M l = Some X /\ (X = M' \/ ds_lost X = true).
   Proof.
     intros F M l M' H. induction H as [M H|M e M1 l M2 Hs _ IH].
     - exists M. split; [reflexivity|left; reflexivity].
@@ -1843,7 +1989,7 @@ Section Exec.
       + exists X. split; [apply dec_log_lost; exact Hx|right; exact Hx].
   Qed.
 
-  Lemma dec_run_lost : forall F tr X, ds_lost X = true -> dec_run GK orc F X tr = true.
+  Lemma dec_run_lost : forall F tr X, ds_lost X = true -> dec_run GK orc chk F X tr = true.
   Proof.
     intros F. induction tr as [|r t IH]; intros X H; [reflexivity|]. cbn [dec_run]. rewrite dec_log_lost by exact H. apply IH. exact H.
   Qed.
@@ -1854,12 +2000,15 @@ End Exec.
 (* ===================================================================== *)
 Section ApiD.
   Variable GK : name -> list nat -> gk.
+  Variable INS : name -> list nat -> list param.
+  Variable LV : name -> list nat -> option name.
+  Notation CH := (chk_params INS LV).
   Variable orc : oracle.
   Variable imm : nat -> bool.
   Variable body : list xstmt.
-  Hypothesis Hbody : guarded_body GK body.
+  Hypothesis Hbody : guarded_body GK INS LV body.
 
-  Notation DQ := (DQ GK orc).
+  Notation DQ := (DQ GK orc CH).
 
   Definition rootinv (s : sched) (M : dst) : Prop :=
     match sc_root s with
@@ -1883,7 +2032,7 @@ Section ApiD.
     set (nTF := mk TF production_task root_site 0 None []) in *.
     exists (fin_upd M nTF).
     eapply DQ_same; [eapply DQ_emit; [exact E1|exact Hl|exact HQ| |reflexivity]|reflexivity|reflexivity].
-    eapply iend; [apply (DQ_lost _ _ _ _ _ HQ)|reflexivity|exact R1|exact R3|]. exists f'. exact Hf'.
+    eapply iend; [apply (DQ_lost _ _ _ _ _ _ HQ)|reflexivity|exact R1|exact R3|]. exists f'. exact Hf'.
   Qed.
 
   Lemma start_step_dec : forall f s M st g',
@@ -1896,7 +2045,7 @@ Section ApiD.
        | None => finish_root ;;; ret RDone
        | Some (i, st) => ret (RCall id i st)
        end) (clear_log (sc_g s)) = Ok (st, g') ->
-      exists M', ilog GK orc M (rev (g_log g')) M' /\ ds_q M' = g_q g' /\
+      exists M', ilog GK orc CH M (rev (g_log g')) M' /\ ds_q M' = g_q g' /\
                  rootinv {| sc_g := g'; sc_root := Some st |} M'.
   Proof.
     intros f s M st g' Hl Htid Hq Hlost H.
@@ -1913,15 +2062,16 @@ Section ApiD.
     assert (Q3 : DQ M g3 M1).
     { unfold fresh_t in E2. inv E2.
       eapply DQ_emit; [exact E3|exact Hl1|eapply DQ_same; [exact Q0|reflexivity|reflexivity]| |reflexivity].
-      apply (iroot GK orc M nTS); [exact Hlost|reflexivity|reflexivity]. }
+      apply (iroot GK orc CH M nTS); [exact Hlost|reflexivity|reflexivity]. }
     assert (Hl3 : lst_all (g_ls g3)) by (rewrite B1; exact Hl1).
     mstep as r g4 E4.
     pose proof (Eff_Fr _ _ _ (proj1 (proj2 (start_eff orc imm f)) _ _ _ _ _ _ _ E4)) as (FL4 & FR4 & _).
     destruct Hbody as (HB0 & HB1).
-    destruct (proj1 (proj2 (start_dec GK orc imm f)) 0 [] body 0 g3 r g4 M M1 production_task [] [] E4 Hl3 Q3 HB1
+    destruct (proj1 (proj2 (start_dec GK INS LV orc imm f)) 0 [] body 0 g3 r g4 M M1 production_task [] [] E4 Hl3 Q3 HB1
                     ltac:(lia) ltac:(lia)) as (M4 & Q4 & F4 & P4).
     { rewrite HB0. exact I. }
     { apply Wg_new. unfold grec, M1. cbn [ds_recs]. apply assoc_setr_same. }
+    { exact eq_refl. }
     destruct r as [[i sti]|].
     - mstep. exists M4. split; [apply Q4|]. split; [apply Q4|]. unfold rootinv. cbn [sc_root sc_g].
       destruct P4 as (s1 & Hn & SP & NE & r' & Hr' & _).
@@ -1944,7 +2094,7 @@ Section ApiD.
        | Some None => finish_root ;;; ret RDone
        | Some (Some (j, st')) => ret (RCall 0 j st')
        end) (clear_log (sc_g s)) = Ok (st, g') ->
-      exists M', ilog GK orc M (rev (g_log g')) M' /\ ds_q M' = g_q g' /\
+      exists M', ilog GK orc CH M (rev (g_log g')) M' /\ ds_q M' = g_q g' /\
                  rootinv {| sc_g := g'; sc_root := Some st |} M'.
   Proof.
     intros f s M id i sti st g' Hl Hwf Hq Hlost HR Hroot H.
@@ -1960,8 +2110,8 @@ Section ApiD.
     mstep as r g2 E2.
     pose proof (proj1 (proj2 (deliver_eff orc imm f)) _ _ _ _ _ _ _ _ _ E2) as DE.
     destruct Hbody as (HB0 & HB1).
-    pose proof (proj1 (proj2 (proj2 (deliver_dec GK orc imm f))) 0 [] body i sti id g1 r g2 M M production_task [] rc
-                      E2 Hl1 Q1 HB1 Hwf ltac:(rewrite HB0; exact I) Ht Hc Hrc Hsp) as PB.
+    pose proof (proj1 (proj2 (proj2 (deliver_dec GK INS LV orc imm f))) 0 [] body i sti id g1 r g2 M M production_task [] rc
+                      E2 Hl1 Q1 HB1 Hwf ltac:(rewrite HB0; exact I) Ht Hc Hrc Hsp eq_refl) as PB.
     destruct r as [[[j st']|]|]; [| |discriminate].
     - mstep. cbn [dres] in DE. destruct PB as (M2 & Q2 & F2 & s2 & Hn2 & SP2 & NE2 & r' & Hr' & _).
       exists M2. split; [apply Q2|]. split; [apply Q2|]. unfold rootinv. cbn [sc_root sc_g].
@@ -1980,7 +2130,7 @@ Section ApiD.
 
   Lemma api_dec : forall f s L M c b s',
       DInv s L M -> api_call orc imm f body s c = Ok (b, s') ->
-      exists L' M', ilog GK orc M (cr_log (observe b s')) M' /\ DInv s' L' M'.
+      exists L' M', ilog GK orc CH M (cr_log (observe b s')) M' /\ DInv s' L' M'.
   Proof.
     intros f s L M c b s' (HI & HP & Hq & Hlost & HR) H.
     destruct (RefC07.api_step orc imm body f s L c b s' HI H) as (L' & _ & HI').
@@ -1988,15 +2138,15 @@ Section ApiD.
     change (cr_log (observe b s')) with (rev (g_log (sc_g s'))).
     assert (QS : g_log (sc_g s') = [] -> g_q (sc_g s') = g_q (sc_g s) -> g_tid (sc_g s') = g_tid (sc_g s) ->
                  sc_root s' = sc_root s ->
-                 exists L' M', ilog GK orc M (rev (g_log (sc_g s'))) M' /\ DInv s' L' M').
+                 exists L' M', ilog GK orc CH M (rev (g_log (sc_g s'))) M' /\ DInv s' L' M').
     { intros E1 E2 E3 E4. exists L', M. rewrite E1. split; [constructor; exact Hlost|].
       split; [exact HI'|]. split; [exact HP'|]. split; [congruence|]. split; [exact Hlost|].
       unfold rootinv in *. rewrite E4. destruct (sc_root s) as [[|id'|cid i sti|sts|bb i sti|k i sti|sts]|]; try exact I.
       unfold cidok in *. rewrite E3. exact HR. }
-    assert (FIN : forall M', ilog GK orc M (rev (g_log (sc_g s'))) M' /\ ds_q M' = g_q (sc_g s') /\ rootinv s' M' ->
-                  exists L' M', ilog GK orc M (rev (g_log (sc_g s'))) M' /\ DInv s' L' M').
+    assert (FIN : forall M', ilog GK orc CH M (rev (g_log (sc_g s'))) M' /\ ds_q M' = g_q (sc_g s') /\ rootinv s' M' ->
+                  exists L' M', ilog GK orc CH M (rev (g_log (sc_g s'))) M' /\ DInv s' L' M').
     { intros M' (X1 & X2 & X3). exists L', M'. split; [exact X1|]. split; [exact HI'|]. split; [exact HP'|].
-      split; [exact X2|]. split; [apply (ilog_lost _ _ _ _ _ X1)|exact X3]. }
+      split; [exact X2|]. split; [apply (ilog_lost _ _ _ _ _ _ X1)|exact X3]. }
     destruct c as [|id| |k l|o|o]; cbn [api_call] in H.
     - destruct (sc_root s) as [r0|] eqn:Hroot.
       + inv H. apply QS; reflexivity || (cbn; congruence).
@@ -2021,7 +2171,7 @@ Section ApiD.
 
   Theorem decide_run_ref : forall F f cs s L M X tr,
       DInv s L M -> X = M \/ ds_lost X = true -> run_script orc imm f body s cs = Ok tr ->
-      dec_run GK orc F X tr = true.
+      dec_run GK orc CH F X tr = true.
   Proof.
     intros F f cs. induction cs as [|c cs IH]; intros s L M X tr HA HX H; cbn [run_script] in H.
     - inv H. reflexivity.
@@ -2031,19 +2181,65 @@ Section ApiD.
       cbn [rbind] in H. inv H.
       destruct HX as [->|HX]; [|apply dec_run_lost; exact HX].
       destruct (api_dec _ _ _ _ _ _ _ HA E) as (L' & M' & X1 & X2).
-      destruct (dec_log_fuel GK orc F _ _ _ X1) as (X & D1 & D2).
+      destruct (dec_log_fuel GK orc CH F _ _ _ X1) as (X & D1 & D2).
       cbn [dec_run]. rewrite D1. eapply IH; eassumption.
   Qed.
 End ApiD.
 
-Theorem decide_with_ref : forall GK orc imm body f cs tr F,
-    guarded_body GK body ->
-    run_script orc imm f body sched0 cs = Ok tr -> holds_decide_with GK orc F tr = true.
+(* the additional test can only be weakened: it never changes the state of the monitor *)
+Section ChkMono.
+  Variable GK : name -> list nat -> gk.
+  Variable orc : oracle.
+  Variables chk1 chk2 : drec -> notif -> bool.
+  Variable F : nat.
+  Hypothesis Hc : forall r n, chk1 r n = true -> chk2 r n = true.
+
+  Lemma dec_notif_weaken : forall M n M1, dec_notif GK orc chk1 F M n = Some M1 -> dec_notif GK orc chk2 F M n = Some M1.
+  Proof.
+    intros M n M1. unfold dec_notif. destruct (n_kind n); try (intro H; exact H);
+      (destruct (n_ctx n) as [c|]; [|intro H; exact H]; destruct (assoc c (ds_recs M)) as [r|]; [|intro H; exact H];
+       destruct (negb (Nat.eqb (d_task r) (st_task (n_site n)))); [intro H; exact H|];
+       destruct (on_start GK orc F r (st_path (n_site n)) (ds_q M)) as [| |r']; try (intro H; exact H);
+       destruct (chk1 r' n) eqn:E; [rewrite (Hc _ _ E); intro H; exact H|discriminate]).
+  Qed.
+
+  Lemma dec_log_weaken : forall l M M1, dec_log GK orc chk1 F M l = Some M1 -> dec_log GK orc chk2 F M l = Some M1.
+  Proof.
+    induction l as [|e l IH]; intros M M1 H; [exact H|]. cbn [dec_log] in *.
+    destruct (dec_entry GK orc chk1 F M e) as [M2|] eqn:E; [|discriminate].
+    assert (E2 : dec_entry GK orc chk2 F M e = Some M2).
+    { unfold dec_entry in *. destruct (ds_lost M); [exact E|]. destruct e as [[|l0] n r|o kk nm id fl|v cc|fi|fi fr]; try exact E.
+      apply dec_notif_weaken. exact E. }
+    rewrite E2. apply IH. exact H.
+  Qed.
+
+  Lemma dec_run_weaken : forall tr M, dec_run GK orc chk1 F M tr = true -> dec_run GK orc chk2 F M tr = true.
+  Proof.
+    induction tr as [|r t IH]; intros M H; [reflexivity|]. cbn [dec_run] in *.
+    destruct (dec_log GK orc chk1 F M (cr_log r)) as [M1|] eqn:E; [|discriminate].
+    rewrite (dec_log_weaken _ _ _ E). apply IH. exact H.
+  Qed.
+End ChkMono.
+
+(* Every run of the reference semantics -- every oracle, set of immediately completed services,
+   fuel, script, monitor fuel, every body whose positions are classified as GK / INS / LV say --
+   satisfies the decision-following monitor with the parameter test, hence without it. *)
+Theorem params_with_ref : forall GK INS LV orc imm body f cs tr F,
+    guarded_body GK INS LV body ->
+    run_script orc imm f body sched0 cs = Ok tr -> holds_check_with GK orc (chk_params INS LV) F tr = true.
 Proof.
-  intros GK orc imm body f cs tr F HB H. unfold holds_decide_with.
-  eapply (decide_run_ref GK orc imm body HB F f cs sched0 life0 dst0 dst0); [|left; reflexivity|exact H].
+  intros GK INS LV orc imm body f cs tr F HB H. unfold holds_check_with.
+  eapply (decide_run_ref GK INS LV orc imm body HB F f cs sched0 life0 dst0 dst0); [|left; reflexivity|exact H].
   split; [|split; [apply RefProgress.PInv_sched0|repeat split]].
   split; [apply lst_all_default|]. cbn. split; reflexivity.
+Qed.
+
+Theorem decide_with_ref : forall GK INS LV orc imm body f cs tr F,
+    guarded_body GK INS LV body ->
+    run_script orc imm f body sched0 cs = Ok tr -> holds_decide_with GK orc F tr = true.
+Proof.
+  intros GK INS LV orc imm body f cs tr F HB H. unfold holds_decide_with, holds_check_with.
+  eapply dec_run_weaken; [|exact (params_with_ref GK INS LV orc imm body f cs tr F HB H)]. reflexivity.
 Qed.
 
 (* ===================================================================== *)
@@ -2108,10 +2304,12 @@ Proof.
 Qed.
 
 Definition gblk_at (body : list stmt) (pre : list nat) (ss : list stmt) : Prop :=
-  forall p, p <> [] -> gk_path body (pre ++ p) = gk_path ss p.
+  (forall p, p <> [] -> gk_path body (pre ++ p) = gk_path ss p) /\
+  (forall p, p <> [] -> ins_path body (pre ++ p) = ins_path ss p) /\
+  (forall p, p <> [] -> lv_path body (pre ++ p) = lv_path ss p).
 
 Lemma gblk_at_root : forall body, gblk_at body [] body.
-Proof. intros body p _. reflexivity. Qed.
+Proof. intros body. repeat split; intros p _; reflexivity. Qed.
 
 Section UnfoldGuarded.
   Variable tasks : list task.
@@ -2124,14 +2322,27 @@ Section UnfoldGuarded.
 
   Lemma unfold_guarded : forall f tn t0 pre i ss s x,
       find_task tn tasks = Some t0 -> gblk_at (t_body t0) pre ss -> nth_error ss i = Some s ->
-      unfold_stmt tasks f tn (pre ++ [i]) s = Ok x -> guarded (gk_at tasks) tn (pre ++ [i]) x.
+      unfold_stmt tasks f tn (pre ++ [i]) s = Ok x -> guarded (gk_at tasks) (ins_at tasks) (lv_at tasks) tn (pre ++ [i]) x.
   Proof.
     induction f as [|f IH]; intros tn t0 pre i ss s x Hft Hblk Hn H; [discriminate|].
     cbn [unfold_stmt] in H.
     assert (KA : forall p, p <> [] -> gk_at tasks tn (pre ++ p) = gk_path ss p).
     { intros p Hp. unfold gk_at. rewrite Hft. apply Hblk. exact Hp. }
+    assert (KAI : forall p, p <> [] -> ins_at tasks tn (pre ++ p) = ins_path ss p).
+    { intros p Hp. unfold ins_at. rewrite Hft. apply Hblk. exact Hp. }
+    assert (KAV : forall p, p <> [] -> lv_at tasks tn (pre ++ p) = lv_path ss p).
+    { intros p Hp. unfold lv_at. rewrite Hft. apply Hblk. exact Hp. }
+    assert (SUB : forall b1 q1 ss1,
+               (forall p, p <> [] -> gk_path ss (i :: q1 ++ p) = gk_path ss1 p) ->
+               (forall p, p <> [] -> ins_path ss (i :: q1 ++ p) = ins_path ss1 p) ->
+               (forall p, p <> [] -> lv_path ss (i :: q1 ++ p) = lv_path ss1 p) ->
+               b1 = (pre ++ [i]) ++ q1 -> gblk_at (t_body t0) b1 ss1).
+    { intros b1 q1 ss1 A1 A2 A3 ->. destruct Hblk as (B1 & B2 & B3).
+      repeat split; intros p Hp; rewrite <- !app_assoc; cbn [app];
+        [rewrite (B1 (i :: q1 ++ p)) by discriminate; apply A1|rewrite (B2 (i :: q1 ++ p)) by discriminate; apply A2
+         |rewrite (B3 (i :: q1 ++ p)) by discriminate; apply A3]; exact Hp. }
     assert (DC : forall pth c y,
-               gk_at tasks tn pth = GLeaf ->
+               gk_at tasks tn pth = GLeaf -> ins_at tasks tn pth = c_ins c -> lv_at tasks tn pth = None ->
                match find_task (c_name c) tasks with
                | Some t =>
                  rbind
@@ -2145,13 +2356,13 @@ Section UnfoldGuarded.
                    (fun body : list xstmt =>
                       Ok (XCall (c_name c) {| st_task := tn; st_path := pth |} (c_ins c) body))
                | None => Exn KeyError
-               end = Ok y -> is_call y = true /\ guarded (gk_at tasks) tn pth y).
-    { intros pth c y HL Hy. destruct (find_task (c_name c) tasks) as [t|] eqn:Ft; [|discriminate].
+               end = Ok y -> is_call y = true /\ guarded (gk_at tasks) (ins_at tasks) (lv_at tasks) tn pth y).
+    { intros pth c y HL HI HV Hy. destruct (find_task (c_name c) tasks) as [t|] eqn:Ft; [|discriminate].
       match type of Hy with rbind ?X _ = _ => destruct X as [body| | |] eqn:E end; try discriminate.
       cbn [rbind] in Hy. inv Hy. split; [reflexivity|]. cbn [guarded]. split; [reflexivity|]. split; [exact HL|].
-      split; [apply gk_at_nil|].
+      split; [apply gk_at_nil|]. split; [|split; [exact HI|exact HV]].
       pose proof (find_task_name _ _ _ Ft) as Hname.
-      apply (blk_all_end (fun k s1 => guarded (gk_at tasks) (c_name c) ([] ++ [k]) s1)
+      apply (blk_all_end (fun k s1 => guarded (gk_at tasks) (ins_at tasks) (lv_at tasks) (c_name c) ([] ++ [k]) s1)
                          (fun k => gk_at tasks (c_name c) ([] ++ [k]) = GNone)
                          (fun k s1 => unfold_stmt tasks f (t_name t) [k] s1)) in E; [exact E| |].
       - intros k s1 x1 Hk Hx. cbn [Nat.add] in *. rewrite <- Hname.
@@ -2166,20 +2377,26 @@ Section UnfoldGuarded.
                     rbind (unfold_stmt tasks f tn (pre ++ [i]) s1)
                           (fun x : xstmt => rbind (block pre (S i) r) (fun xs : list xstmt => Ok (x :: xs)))
                   end) pre0 0 ss0 = Ok xs ->
-               all_end (fun k s1 => guarded (gk_at tasks) tn (pre0 ++ [k]) s1)
+               all_end (fun k s1 => guarded (gk_at tasks) (ins_at tasks) (lv_at tasks) tn (pre0 ++ [k]) s1)
                        (fun k => gk_at tasks tn (pre0 ++ [k]) = GNone) 0 xs).
     { intros pre0 ss0 xs Hb Hx.
-      apply (block_all_end (fun k s1 => guarded (gk_at tasks) tn (pre0 ++ [k]) s1)
+      apply (block_all_end (fun k s1 => guarded (gk_at tasks) (ins_at tasks) (lv_at tasks) tn (pre0 ++ [k]) s1)
                            (fun k => gk_at tasks tn (pre0 ++ [k]) = GNone)
                            (fun pre i s1 => unfold_stmt tasks f tn (pre ++ [i]) s1)) in Hx; [exact Hx| |].
       - intros k s1 x1 Hk Hx1. cbn [Nat.add] in *. eapply IH; eassumption.
-      - cbn [Nat.add]. unfold gk_at. rewrite Hft. rewrite (Hb [List.length ss0]) by discriminate. apply gk_path_end. }
+      - cbn [Nat.add]. unfold gk_at. rewrite Hft. rewrite (proj1 Hb [List.length ss0]) by discriminate. apply gk_path_end. }
     pose proof (KA [i] ltac:(discriminate)) as Ki. cbn [gk_path] in Ki. rewrite Hn in Ki.
     assert (K2 : forall j, gk_at tasks tn ((pre ++ [i]) ++ [j]) = gk_path ss [i; j]).
     { intro j. rewrite <- app_assoc. cbn [app]. apply KA. discriminate. }
+    assert (K2I : forall j, ins_at tasks tn ((pre ++ [i]) ++ [j]) = ins_path ss [i; j]).
+    { intro j. rewrite <- app_assoc. cbn [app]. apply KAI. discriminate. }
+    assert (K2V : forall j, lv_at tasks tn ((pre ++ [i]) ++ [j]) = lv_path ss [i; j]).
+    { intro j. rewrite <- app_assoc. cbn [app]. apply KAV. discriminate. }
+    pose proof (KAI [i] ltac:(discriminate)) as KiI. cbn [ins_path] in KiI. rewrite Hn in KiI.
+    pose proof (KAV [i] ltac:(discriminate)) as KiV. cbn [lv_path] in KiV. rewrite Hn in KiV.
     destruct s as [n ins outs|c|cs|e body|par v lim body|e p fl].
-    - inv H. cbn [guarded]. split; [reflexivity|exact Ki].
-    - apply DC in H; [apply H|exact Ki].
+    - inv H. cbn [guarded]. split; [reflexivity|]. split; [exact Ki|]. split; [first [exact KiI|exact eq_refl]|exact KiV].
+    - apply DC in H; [apply H|exact Ki|exact KiI|exact KiV].
     - match type of H with rbind ?X _ = _ => destruct X as [bs| | |] eqn:E end; try discriminate.
       cbn [rbind] in H. inv H. cbn [guarded].
       assert (Hlen : List.length bs = List.length cs).
@@ -2197,8 +2414,8 @@ Section UnfoldGuarded.
                       Ok (XCall (c_name c) {| st_task := tn; st_path := (pre ++ [i]) ++ [j] |} (c_ins c) body))
                | None => Exn KeyError
                end)). exact E. }
-      split; [rewrite Ki, Hlen; reflexivity|].
-      apply (calls_all_from_nth (fun j b => is_call b = true /\ guarded (gk_at tasks) tn ((pre ++ [i]) ++ [j]) b)
+      split; [rewrite Ki, Hlen; reflexivity|]. split; [|exact KiV].
+      apply (calls_all_from_nth (fun j b => is_call b = true /\ guarded (gk_at tasks) (ins_at tasks) (lv_at tasks) tn ((pre ++ [i]) ++ [j]) b)
                (fun j c => match find_task (c_name c) tasks with
                | Some t =>
                  rbind
@@ -2213,43 +2430,52 @@ Section UnfoldGuarded.
                       Ok (XCall (c_name c) {| st_task := tn; st_path := (pre ++ [i]) ++ [j] |} (c_ins c) body))
                | None => Exn KeyError
                end)) in E; [exact E|].
-      intros j y c Hj Hy. cbn [Nat.add] in *. eapply DC; [|exact Hy].
-      rewrite K2. cbn [gk_path]. rewrite Hn.
-      assert (j < List.length cs) as Hlt by (apply nth_error_Some; congruence).
-      apply Nat.ltb_lt in Hlt. rewrite Hlt. reflexivity.
+      intros j y c Hj Hy. cbn [Nat.add] in *. eapply DC; [| | |exact Hy].
+      + rewrite K2. cbn [gk_path]. rewrite Hn.
+        assert (j < List.length cs) as Hlt by (apply nth_error_Some; congruence).
+        apply Nat.ltb_lt in Hlt. rewrite Hlt. reflexivity.
+      + rewrite K2I. cbn [ins_path]. rewrite Hn, Hj. reflexivity.
+      + rewrite K2V. cbn [lv_path]. rewrite Hn. reflexivity.
     - match type of H with rbind ?X _ = _ => destruct X as [b| | |] eqn:E end; try discriminate.
-      cbn [rbind] in H. inv H. cbn [guarded]. split; [exact Ki|]. eapply BL; [|exact E].
-      intros p Hp. rewrite <- app_assoc. cbn [app]. rewrite (Hblk (i :: p)) by discriminate.
-      cbn [gk_path]. rewrite Hn. destruct p; [contradiction|reflexivity].
+      cbn [rbind] in H. inv H. cbn [guarded]. split; [exact Ki|]. split; [|exact KiV]. eapply BL; [|exact E].
+      apply (SUB _ [] _); [| | |rewrite app_nil_r; reflexivity]; intros p Hp; cbn [app gk_path ins_path lv_path]; rewrite Hn;
+        (destruct p; [contradiction|reflexivity]).
     - destruct par.
       + destruct body as [|[n0 i0 o0|c|cs0|e0 b0|p0 v0 l0 b0|e0 p0 f0] [|s2 r2]]; try discriminate.
         match type of H with rbind ?X _ = _ => destruct X as [y| | |] eqn:E end; try discriminate.
-        cbn [rbind] in H. inv H. cbn [guarded]. split; [exact Ki|]. apply DC in E; [exact E|].
-        rewrite K2. cbn [gk_path]. rewrite Hn. reflexivity.
+        cbn [rbind] in H. inv H. cbn [guarded]. split; [exact Ki|].
+        assert (X : is_call y = true /\ guarded (gk_at tasks) (ins_at tasks) (lv_at tasks) tn ((pre ++ [i]) ++ [0]) y).
+        { apply DC in E; [exact E| | |].
+          - rewrite K2. cbn [gk_path]. rewrite Hn. reflexivity.
+          - rewrite K2I. cbn [ins_path]. rewrite Hn. reflexivity.
+          - rewrite K2V. cbn [lv_path]. rewrite Hn. reflexivity. }
+        split; [apply X|]. split; [apply X|exact KiV].
       + match type of H with rbind ?X _ = _ => destruct X as [b| | |] eqn:E end; try discriminate.
-        cbn [rbind] in H. inv H. cbn [guarded]. split; [exact Ki|]. eapply BL; [|exact E].
-        intros p Hp. rewrite <- app_assoc. cbn [app]. rewrite (Hblk (i :: p)) by discriminate.
-        cbn [gk_path]. rewrite Hn. destruct p; [contradiction|reflexivity].
+        cbn [rbind] in H. inv H. cbn [guarded]. split; [exact Ki|]. split; [|exact KiV]. eapply BL; [|exact E].
+        apply (SUB _ [] _); [| | |rewrite app_nil_r; reflexivity]; intros p Hp; cbn [app gk_path ins_path lv_path]; rewrite Hn;
+          (destruct p; [contradiction|reflexivity]).
     - match type of H with rbind ?X _ = _ => destruct X as [xp| | |] eqn:E1 end; try discriminate.
       cbn [rbind] in H.
       match type of H with rbind ?X _ = _ => destruct X as [xf| | |] eqn:E2 end; try discriminate.
       cbn [rbind] in H. inv H. cbn [guarded].
-      split; [exact Ki|]. split; [|split; [|split]].
+      split; [exact Ki|]. split; [|split; [|split; [|split; [|split; [exact KiV|split]]]]].
       + rewrite K2. cbn [gk_path]. rewrite Hn. reflexivity.
       + rewrite K2. cbn [gk_path]. rewrite Hn. reflexivity.
-      + eapply BL; [|exact E1]. intros q Hq. rewrite <- !app_assoc. cbn [app]. rewrite (Hblk (i :: 0 :: q)) by discriminate.
-        cbn [gk_path]. rewrite Hn. reflexivity.
-      + eapply BL; [|exact E2]. intros q Hq. rewrite <- !app_assoc. cbn [app]. rewrite (Hblk (i :: 1 :: q)) by discriminate.
-        cbn [gk_path]. rewrite Hn. reflexivity.
+      + eapply BL; [|exact E1].
+        apply (SUB _ [0] _); [| | |reflexivity]; intros q Hq; cbn [app gk_path ins_path lv_path]; rewrite Hn; reflexivity.
+      + eapply BL; [|exact E2].
+        apply (SUB _ [1] _); [| | |reflexivity]; intros q Hq; cbn [app gk_path ins_path lv_path]; rewrite Hn; reflexivity.
+      + rewrite K2V. cbn [lv_path]. rewrite Hn. reflexivity.
+      + rewrite K2V. cbn [lv_path]. rewrite Hn. reflexivity.
   Qed.
 
   Lemma unfold_program_guarded : forall f body,
-      unfold_program tasks f = Ok body -> guarded_body (gk_at tasks) body.
+      unfold_program tasks f = Ok body -> guarded_body (gk_at tasks) (ins_at tasks) (lv_at tasks) body.
   Proof.
     intros f body H. unfold unfold_program in H.
     destruct (find_task production_task tasks) as [t|] eqn:Ft; [|discriminate].
     split; [apply gk_at_nil|]. unfold gblock.
-    apply (blk_all_end (fun k s1 => guarded (gk_at tasks) production_task ([] ++ [k]) s1)
+    apply (blk_all_end (fun k s1 => guarded (gk_at tasks) (ins_at tasks) (lv_at tasks) production_task ([] ++ [k]) s1)
                        (fun k => gk_at tasks production_task ([] ++ [k]) = GNone)
                        (fun k s1 => unfold_stmt tasks f production_task [k] s1)) in H; [exact H| |].
     - intros k s1 x1 Hk Hx. cbn [Nat.add] in *.
@@ -2294,35 +2520,36 @@ Qed.
 Section MeaningD.
   Variable GK : name -> list nat -> gk.
   Variable orc : oracle.
+  Variable chk : drec -> notif -> bool.
   Variable F : nat.
 
   (* the state of the monitor after a prefix of the calls *)
   Fixpoint dhist (S0 : dst) (tr : list callrec) : option dst :=
     match tr with
     | [] => Some S0
-    | r :: t => match dec_log GK orc F S0 (cr_log r) with Some S1 => dhist S1 t | None => None end
+    | r :: t => match dec_log GK orc chk F S0 (cr_log r) with Some S1 => dhist S1 t | None => None end
     end.
 
-  Lemma dec_log_app : forall a b S0 S2, dec_log GK orc F S0 (a ++ b) = Some S2 ->
-                                        exists S1, dec_log GK orc F S0 a = Some S1 /\ dec_log GK orc F S1 b = Some S2.
+  Lemma dec_log_app : forall a b S0 S2, dec_log GK orc chk F S0 (a ++ b) = Some S2 ->
+                                        exists S1, dec_log GK orc chk F S0 a = Some S1 /\ dec_log GK orc chk F S1 b = Some S2.
   Proof.
     induction a as [|e a IH]; intros b S0 S2 H; cbn [app dec_log] in *.
     - exists S0. split; [reflexivity|exact H].
-    - destruct (dec_entry GK orc F S0 e) as [S1|]; [|discriminate]. exact (IH _ _ _ H).
+    - destruct (dec_entry GK orc chk F S0 e) as [S1|]; [|discriminate]. exact (IH _ _ _ H).
   Qed.
 
   (* every entry of an accepted run passed the test of the monitor in the state reached by the
      history before it *)
   Theorem decide_run_meaning : forall tr pre r post a e b S0,
-      dec_run GK orc F S0 tr = true -> tr = pre ++ r :: post -> cr_log r = a ++ e :: b ->
-      exists S1 H H', dhist S0 pre = Some S1 /\ dec_log GK orc F S1 a = Some H /\ dec_entry GK orc F H e = Some H'.
+      dec_run GK orc chk F S0 tr = true -> tr = pre ++ r :: post -> cr_log r = a ++ e :: b ->
+      exists S1 H H', dhist S0 pre = Some S1 /\ dec_log GK orc chk F S1 a = Some H /\ dec_entry GK orc chk F H e = Some H'.
   Proof.
     intros tr pre. revert tr. induction pre as [|r0 pre IH]; intros tr r post a e b S0 H -> Hl; cbn [app dec_run] in H.
-    - destruct (dec_log GK orc F S0 (cr_log r)) as [S1|] eqn:E; [|discriminate]. rewrite Hl in E.
+    - destruct (dec_log GK orc chk F S0 (cr_log r)) as [S1|] eqn:E; [|discriminate]. rewrite Hl in E.
       destruct (dec_log_app _ _ _ _ E) as (H1 & A1 & A2). cbn [dec_log] in A2.
-      destruct (dec_entry GK orc F H1 e) as [H'|] eqn:E2; [|discriminate].
+      destruct (dec_entry GK orc chk F H1 e) as [H'|] eqn:E2; [|discriminate].
       exists S0, H1, H'. repeat split; assumption.
-    - destruct (dec_log GK orc F S0 (cr_log r0)) as [S1|] eqn:E; [|discriminate].
+    - destruct (dec_log GK orc chk F S0 (cr_log r0)) as [S1|] eqn:E; [|discriminate].
       destruct (IH _ r post a e b S1 H eq_refl Hl) as (S2 & H1 & H' & A1 & A2 & A3).
       exists S2, H1, H'. cbn [dhist]. rewrite E. repeat split; assumption.
   Qed.
@@ -2331,7 +2558,7 @@ Section MeaningD.
      started last in that instance -- with the decisions recomputed from the oracle's answers --
      and the walk consumed exactly the queries asked so far *)
   Theorem start_rule : forall H n H' c,
-      dec_notif GK orc F H n = Some H' -> ds_lost H' = false ->
+      dec_notif GK orc chk F H n = Some H' -> ds_lost H' = false ->
       n_kind n = TS \/ n_kind n = SS -> n_ctx n = Some c ->
       exists r, assoc c (ds_recs H) = Some r /\ d_task r = st_task (n_site n) /\
                 match d_more r with
@@ -2361,7 +2588,7 @@ Section MeaningD.
 
   (* a task-finished notification: the walk through the instance arrives at the end of its body *)
   Theorem end_rule : forall H n H',
-      dec_notif GK orc F H n = Some H' -> ds_lost H' = false -> n_kind n = TF ->
+      dec_notif GK orc chk F H n = Some H' -> ds_lost H' = false -> n_kind n = TF ->
       exists r cn more, assoc (n_id n) (ds_recs H) = Some r /\ d_more r = 0 /\
                         expect GK orc F r (ds_q H) = Some (Some (None, cn, ds_q H, more)).
   Proof.
@@ -2474,7 +2701,7 @@ Proof. vm_compute. repeat split; reflexivity. Qed.
 Example ex_case_decide_accepted : mon_C04 ex_case seq_ex_trace = true /\ mon_C05 ex_case seq_ex_trace = true.
 Proof. vm_compute. split; reflexivity. Qed.
 
-Lemma dx_guarded : guarded_body (gk_at (p_tasks dx_prog)) (match unfold_program (p_tasks dx_prog) 200 with Ok b => b | _ => [] end).
+Lemma dx_guarded : guarded_body (gk_at (p_tasks dx_prog)) (ins_at (p_tasks dx_prog)) (lv_at (p_tasks dx_prog)) (match unfold_program (p_tasks dx_prog) 200 with Ok b => b | _ => [] end).
 Proof.
   destruct (unfold_program (p_tasks dx_prog) 200) as [b| | |] eqn:E; try (vm_compute in E; discriminate).
   eapply unfold_program_guarded. exact E.
